@@ -6,7 +6,8 @@
    (`wire`); `sys2` adds `wireB`: every datagram B ever handed to its output callback. *)
 From Coq Require Import ZArith List Bool Lia.
 From KV.Base Require Import Consts Word WordLemmas.
-From KV.Kcp Require Import Kcp Step Net.
+From KV.Kcp Require Import Kcp Step Net InvBase InvApi InvInputBase InvInput InvFlushBase InvFlush InvAll
+  LiveBase Live NetSenderBase NetReceiver.
 Import ListNotations.
 Local Open Scope Z_scope.
 
@@ -184,3 +185,1526 @@ Definition head_due (s : sys2) (t : Z) : Prop :=
 (* B8: no message has more fragments than B's receive window holds (message mode contract;
    in stream mode every fragment counter is 0) *)
 Definition b8 (s : sys2) : Prop := Forall (fun p => fst p < rcv_wnd (kB s)) (numbered_of s).
+
+(* ================================================================== *)
+(* 5. helper lemmas (single endpoint)                                  *)
+(* ================================================================== *)
+Ltac Zify.zify_post_hook ::= Z.div_mod_to_equations.
+
+Lemma pg_rd32_le32 x r : rd32 (le32 x ++ r) = u32 x.
+Proof. unfold rd32, le32, u32, W32; cbn [app]. lia. Qed.
+
+Lemma pg_rd16_le16 x r : rd16 (le16 x ++ r) = u16 x.
+Proof. unfold rd16, le16, u16; cbn [app]. lia. Qed.
+
+(* what the wire format determines of a segment *)
+Definition pg_same_wire (s1 s2 : seg) : Prop :=
+  u32 (s_conv s1) = u32 (s_conv s2) /\ s_cmd s1 = s_cmd s2 /\ s_frg s1 = s_frg s2 /\
+  u16 (s_wnd s1) = u16 (s_wnd s2) /\ u32 (s_ts s1) = u32 (s_ts s2) /\ u32 (s_sn s1) = u32 (s_sn s2) /\
+  u32 (s_una s1) = u32 (s_una s2) /\ s_data s1 = s_data s2.
+
+Lemma pg_app_inj_len (T : Type) (a b c d : list T) :
+  length a = length c -> a ++ b = c ++ d -> a = c /\ b = d.
+Proof.
+  revert c. induction a as [|x a IH]; intros c Hl E; destruct c as [|y c]; try discriminate.
+  - split; [reflexivity|exact E].
+  - cbn [app] in E. inversion E; subst. cbn [length] in Hl.
+    destruct (IH c) as [E1 E2]; [lia|assumption|]. subst. split; reflexivity.
+Qed.
+
+Lemma pg_decode_head s1 r1 s2 r2 :
+  encode_seg s1 ++ r1 = encode_seg s2 ++ r2 -> blen (encode_seg s1 ++ r1) < W32 ->
+  pg_same_wire s1 s2 /\ r1 = r2.
+Proof.
+  intros E Hb.
+  assert (B1 : blen (s_data s1) < W32 /\ blen (s_data s2) < W32).
+  { pose proof Hb as Hb2. rewrite E in Hb2. rewrite blen_app, lv_encode_len in Hb, Hb2.
+    pose proof (blen_nonneg r1). pose proof (blen_nonneg r2).
+    pose proof (blen_nonneg (s_data s1)). pose proof (blen_nonneg (s_data s2)).
+    unfold c_IKCP_OVERHEAD in *. lia. }
+  pose proof (f_equal rd32 E) as E0. rewrite (lv_skip0 s1 r1), (lv_skip0 s2 r2), !pg_rd32_le32 in E0.
+  pose proof (f_equal (fun l => nth 4 l 0) E) as E4. cbv beta in E4.
+  change (nth 4 (encode_seg s1 ++ r1) 0) with (s_cmd s1) in E4.
+  change (nth 4 (encode_seg s2 ++ r2) 0) with (s_cmd s2) in E4.
+  pose proof (f_equal (fun l => nth 5 l 0) E) as E5. cbv beta in E5.
+  change (nth 5 (encode_seg s1 ++ r1) 0) with (s_frg s1) in E5.
+  change (nth 5 (encode_seg s2 ++ r2) 0) with (s_frg s2) in E5.
+  pose proof (f_equal (fun l => rd16 (skipn 6 l)) E) as E6. cbv beta in E6.
+  rewrite !lv_skip6, !pg_rd16_le16 in E6.
+  pose proof (f_equal (fun l => rd32 (skipn 8 l)) E) as E8. cbv beta in E8.
+  rewrite !lv_skip8, !pg_rd32_le32 in E8.
+  pose proof (f_equal (fun l => rd32 (skipn 12 l)) E) as E12. cbv beta in E12.
+  rewrite !lv_skip12, !pg_rd32_le32 in E12.
+  pose proof (f_equal (fun l => rd32 (skipn 16 l)) E) as E16. cbv beta in E16.
+  rewrite !lv_skip16, !pg_rd32_le32 in E16.
+  pose proof (f_equal (fun l => rd32 (skipn 20 l)) E) as E20. cbv beta in E20.
+  rewrite !lv_skip20, !pg_rd32_le32 in E20.
+  pose proof (f_equal (skipn 24) E) as E24. rewrite !lv_skip24 in E24.
+  assert (El : length (s_data s1) = length (s_data s2)).
+  { pose proof (blen_nonneg (s_data s1)). pose proof (blen_nonneg (s_data s2)).
+    rewrite !u32_id in E20 by lia. unfold blen in E20. lia. }
+  destruct (pg_app_inj_len _ _ _ _ _ El E24) as [Ed Er].
+  split; [|exact Er]. unfold pg_same_wire. auto 10.
+Qed.
+
+Lemma pg_decode_uniq : forall l1 l2,
+  concat (map encode_seg l1) = concat (map encode_seg l2) ->
+  blen (concat (map encode_seg l1)) < W32 -> Forall2 pg_same_wire l1 l2.
+Proof.
+  induction l1 as [|s1 t1 IH]; intros l2 E Hb; destruct l2 as [|s2 t2].
+  - constructor.
+  - exfalso. cbn [map concat] in E. apply (f_equal blen) in E. rewrite blen_app, lv_encode_len in E.
+    change (blen []) with 0 in E. pose proof (blen_nonneg (s_data s2)).
+    pose proof (blen_nonneg (concat (map encode_seg t2))). unfold c_IKCP_OVERHEAD in E. lia.
+  - exfalso. cbn [map concat] in E. apply (f_equal blen) in E. rewrite blen_app, lv_encode_len in E.
+    change (blen []) with 0 in E. pose proof (blen_nonneg (s_data s1)).
+    pose proof (blen_nonneg (concat (map encode_seg t1))). unfold c_IKCP_OVERHEAD in E. lia.
+  - cbn [map concat] in E, Hb.
+    destruct (pg_decode_head _ _ _ _ E Hb) as [Hs Er].
+    constructor; [exact Hs|]. apply IH; [exact Er|].
+    rewrite blen_app, lv_encode_len in Hb. pose proof (blen_nonneg (s_data s1)).
+    unfold c_IKCP_OVERHEAD in Hb. lia.
+Qed.
+
+(* ================================================================== *)
+(* the segment loop of Input over a datagram made of encoded segments  *)
+(* ================================================================== *)
+Lemma pg_concat_len segs :
+  blen (concat (map encode_seg segs)) >= c_IKCP_OVERHEAD * Z.of_nat (length segs).
+Proof.
+  induction segs as [|s t IH]; [cbn; unfold c_IKCP_OVERHEAD; lia|].
+  cbn [map concat length]. rewrite blen_app, lv_encode_len. pose proof (blen_nonneg (s_data s)).
+  unfold c_IKCP_OVERHEAD in *. lia.
+Qed.
+
+Lemma pg_concat_bytes segs : Forall seg_wf segs -> is_byte_list (concat (map encode_seg segs)).
+Proof.
+  induction 1 as [|s t Hs Ht IH]; [constructor|]. cbn [map concat].
+  apply ns_is_byte_list_app. split; [apply nr_encode_bytes; exact Hs|exact IH].
+Qed.
+
+(* I is indexed by the segments already processed *)
+Lemma pg_input_loop (I : list seg -> inp -> Prop) (Q : seg -> Prop) reg :
+  (forall s, Q s -> seg_wf s) ->
+  (forall pre a s rest, I pre a -> Q s -> is_byte_list rest ->
+     exists a', input_seg a (encode_seg s ++ rest) reg = inl (Ok (a', rest)) /\ I (pre ++ [s]) a') ->
+  forall segs pre fuel a, (length segs <= fuel)%nat -> Forall Q segs -> I pre a ->
+  exists a', input_loop fuel a (concat (map encode_seg segs)) reg = Ok (a', LDone) /\ I (pre ++ segs) a'.
+Proof.
+  intros Hwf Hstep. induction segs as [|s t IH]; intros pre fuel a Hf HQ HI.
+  - rewrite app_nil_r. exists a. split; [|exact HI]. destruct fuel; reflexivity.
+  - destruct fuel as [|f]; [cbn [length] in Hf; lia|]. cbn [length] in Hf.
+    cbn [map concat input_loop].
+    assert (E : blen (encode_seg s ++ concat (map encode_seg t)) <? c_IKCP_OVERHEAD = false).
+    { apply Z.ltb_ge. rewrite blen_app, lv_encode_len. pose proof (blen_nonneg (s_data s)).
+      pose proof (blen_nonneg (concat (map encode_seg t))). lia. }
+    rewrite E.
+    assert (Hb : is_byte_list (concat (map encode_seg t))).
+    { apply pg_concat_bytes. eapply Forall_impl; [exact Hwf|exact (Forall_inv_tail HQ)]. }
+    destruct (Hstep pre a s (concat (map encode_seg t)) HI (Forall_inv HQ) Hb) as (a1 & E1 & HI1).
+    rewrite E1.
+    destruct (IH (pre ++ [s]) f a1) as (a' & E2 & HI2); [lia|exact (Forall_inv_tail HQ)|exact HI1|].
+    exists a'. split; [exact E2|]. rewrite <- app_assoc in HI2. exact HI2.
+Qed.
+
+(* the part of Input after the loop *)
+Definition pg_post (k : kcp) (a : inp) (reg : bool) (now : Z) : kcp :=
+  input_cwnd (if i_rtt a && reg && (itimediff now (i_latest a) >=? 0)
+              then update_ack (i_k a) (itimediff now (i_latest a)) else i_k a) (snd_una k).
+
+Definition pg_freq (k3 : kcp) (a : inp) (nd : bool) : flush_req :=
+  if i_flush a then FFull
+  else if Z.of_nat (length (acklist k3)) >=? mtu k3 / c_IKCP_OVERHEAD then FAck
+  else if nd && (Z.of_nat (length (acklist k3)) >? 0) then FAck else FNone.
+
+Lemma pg_input_pre (I : list seg -> inp -> Prop) (Q : seg -> Prop) reg k segs nd now :
+  (forall s, Q s -> seg_wf s) ->
+  (forall pre a s rest, I pre a -> Q s -> is_byte_list rest ->
+     exists a', input_seg a (encode_seg s ++ rest) reg = inl (Ok (a', rest)) /\ I (pre ++ [s]) a') ->
+  Forall Q segs -> segs <> [] -> I [] (mkInp k 0 false false) ->
+  exists a', I segs a' /\
+    input_pre k (concat (map encode_seg segs)) reg nd now =
+      Ok (pg_post k a' reg now, 0, pg_freq (pg_post k a' reg now) a' nd).
+Proof.
+  intros Hwf Hstep HQ Hne HI. unfold input_pre. cbv zeta.
+  pose proof (pg_concat_len segs) as Hlen.
+  assert (E : blen (concat (map encode_seg segs)) <? c_IKCP_OVERHEAD = false).
+  { apply Z.ltb_ge. destruct segs as [|s t]; [contradiction|]. cbn [length] in Hlen.
+    unfold c_IKCP_OVERHEAD in *. lia. }
+  rewrite E.
+  destruct (pg_input_loop I Q reg Hwf Hstep segs [] (S (length (concat (map encode_seg segs)) / 24))
+              (mkInp k 0 false false)) as (a' & El & HI'); [|exact HQ|exact HI|].
+  { apply le_S. apply Nat.div_le_lower_bound; [lia|]. unfold blen, c_IKCP_OVERHEAD in Hlen. lia. }
+  rewrite El. cbn [app] in HI'. exists a'. split; [exact HI'|].
+  unfold pg_post, pg_freq.
+  destruct (i_flush a'); [reflexivity|].
+  destruct (_ >=? _); [reflexivity|].
+  destruct (_ && _); reflexivity.
+Qed.
+
+Lemma pg_input_pre_nil k reg nd now : input_pre k [] reg nd now = Ok (k, -1, FNone).
+Proof. reflexivity. Qed.
+
+(* fields the post-processing of Input leaves alone *)
+Definition pg_fx (k : kcp) :=
+  (conv k, mtu k, (snd_una k, snd_nxt k, rcv_nxt k), (snd_wnd k, rcv_wnd k, rmt_wnd k),
+   (probe k, ts_probe k, probe_wait k), (snd_queue k, rcv_queue k, snd_buf k, rcv_buf k),
+   acklist k, (stream k, nocwnd k)).
+
+Lemma pg_fx_update_ack k rtt : pg_fx (update_ack k rtt) = pg_fx k.
+Proof. destruct (ii_update_ack_unf k rtt) as (srtt & var & E). rewrite E. reflexivity. Qed.
+
+Lemma pg_fx_input_cwnd k una0 : pg_fx (input_cwnd k una0) = pg_fx k.
+Proof.
+  unfold input_cwnd.
+  destruct ((nocwnd k =? 0) && (itimediff (snd_una k) una0 >? 0) && (cwnd k <? rmt_wnd k)); [|reflexivity].
+  cbv zeta.
+  match goal with |- context [let '(cw, inc) := ?X in _] => destruct X as [cw inc] end.
+  destruct (cw >? rmt_wnd k); reflexivity.
+Qed.
+
+Lemma pg_fx_post k a reg now : pg_fx (pg_post k a reg now) = pg_fx (i_k a).
+Proof.
+  unfold pg_post. rewrite pg_fx_input_cwnd.
+  destruct (i_rtt a && reg && (itimediff now (i_latest a) >=? 0)); [apply pg_fx_update_ack|reflexivity].
+Qed.
+
+Lemma pg_fx_all k k' : pg_fx k' = pg_fx k ->
+  conv k' = conv k /\ mtu k' = mtu k /\ snd_una k' = snd_una k /\ snd_nxt k' = snd_nxt k /\
+  rcv_nxt k' = rcv_nxt k /\ snd_wnd k' = snd_wnd k /\ rcv_wnd k' = rcv_wnd k /\ rmt_wnd k' = rmt_wnd k /\
+  probe k' = probe k /\ ts_probe k' = ts_probe k /\ probe_wait k' = probe_wait k /\
+  snd_queue k' = snd_queue k /\ rcv_queue k' = rcv_queue k /\ snd_buf k' = snd_buf k /\
+  rcv_buf k' = rcv_buf k /\ acklist k' = acklist k /\ stream k' = stream k /\ nocwnd k' = nocwnd k.
+Proof. unfold pg_fx. intros H. inversion H. repeat split; reflexivity. Qed.
+
+(* ================================================================== *)
+(* indices                                                             *)
+(* ================================================================== *)
+Lemma pg_idx_u32 isn r : 0 <= r < W32 -> idx isn (u32 (isn + r)) = r.
+Proof. unfold idx, u32, W32. lia. Qed.
+
+Lemma pg_u32_idx isn x : is_u32 x -> u32 (isn + idx isn x) = x.
+Proof. unfold idx, is_u32, u32, W32. lia. Qed.
+
+Lemma pg_idx_range isn x : 0 <= idx isn x < W32.
+Proof. unfold idx. apply u32_range. Qed.
+
+(* ================================================================== *)
+(* rcv_buf: has_sn, insertion, the head                                *)
+(* ================================================================== *)
+Lemma pg_has_sn_insert x s : forall l,
+  has_sn x (insert_seg s l) = true <-> (s_sn s = x \/ has_sn x l = true).
+Proof.
+  induction l as [|e t IH]; cbn [insert_seg].
+  - unfold has_sn. cbn [existsb]. rewrite orb_false_r, Z.eqb_eq. split; [intros H; left; exact H|].
+    intros [H|H]; [exact H|discriminate].
+  - destruct (itimediff (s_sn e) (s_sn s) >? 0).
+    + rewrite has_sn_cons. rewrite orb_true_iff, Z.eqb_eq. tauto.
+    + rewrite !has_sn_cons. rewrite !orb_true_iff, IH, Z.eqb_eq. tauto.
+Qed.
+
+Lemma pg_sorted_no base hi x : forall l lo,
+  1 <= lo -> rb_sorted base lo hi l -> itimediff x base = 0 -> has_sn x l = false.
+Proof.
+  induction l as [|e t IH]; intros lo Hlo H Hx; [reflexivity|].
+  rewrite ii_rb_cons in H. destruct H as (Hd & Hu & Ht).
+  rewrite has_sn_cons. apply orb_false_iff. split.
+  - apply Z.eqb_neq. intros E. rewrite E in Hd. lia.
+  - apply (IH (itimediff (s_sn e) base + 1)); [lia|exact Ht|exact Hx].
+Qed.
+
+(* in a sorted rcv_buf the next expected number can only sit at the head *)
+Lemma pg_sorted_head base hi l :
+  rb_sorted base 0 hi l -> is_u32 base -> has_sn base l = true ->
+  exists x t, l = x :: t /\ s_sn x = base.
+Proof.
+  intros H Hb Hh. destruct l as [|e t]; [discriminate|].
+  rewrite ii_rb_cons in H. destruct H as (Hd & Hu & Ht).
+  exists e, t. split; [reflexivity|].
+  rewrite has_sn_cons in Hh. apply orb_true_iff in Hh. destruct Hh as [Hh|Hh]; [apply Z.eqb_eq; exact Hh|].
+  destruct (Z.eq_dec (itimediff (s_sn e) base) 0) as [E|E].
+  - apply (ii_diff_inj _ _ base Hu Hb). rewrite E, itimediff_self. reflexivity.
+  - rewrite (pg_sorted_no base hi base t (itimediff (s_sn e) base + 1)) in Hh;
+      [discriminate|lia|exact Ht|apply itimediff_self].
+Qed.
+
+Lemma pg_insert_head base hi s l :
+  rb_sorted base 0 hi l -> has_sn (s_sn s) l = false -> s_sn s = base -> is_u32 base ->
+  insert_seg s l = s :: l.
+Proof.
+  intros H Hh Hs Hb. destruct l as [|e t]; [reflexivity|]. cbn [insert_seg].
+  rewrite ii_rb_cons in H. destruct H as (Hd & Hu & Ht).
+  rewrite has_sn_cons in Hh. apply orb_false_iff in Hh. destruct Hh as [Hne _]. apply Z.eqb_neq in Hne.
+  assert (Hp : itimediff (s_sn e) (s_sn s) > 0).
+  { rewrite Hs. destruct (Z.eq_dec (itimediff (s_sn e) base) 0) as [E|E]; [|lia].
+    exfalso. apply Hne. rewrite Hs. apply (ii_diff_inj _ _ base Hu Hb). rewrite E, itimediff_self. reflexivity. }
+  destruct (itimediff (s_sn e) (s_sn s) >? 0) eqn:Eg; [reflexivity|]. lv_b2z. lia.
+Qed.
+
+(* ================================================================== *)
+(* move_ready with indices                                             *)
+(* ================================================================== *)
+Definition pg_stuck (rb rq : list seg) (rn rw : Z) : Prop :=
+  match rb with [] => True | x :: _ => s_sn x <> rn \/ rw <= qlen rq end.
+
+Lemma pg_move_ready isn rw : forall rb rq r rb' rq' rn',
+  move_ready rb rq (u32 (isn + r)) rw = (rb', rq', rn') -> 0 <= r -> r + qlen rb < H32 ->
+  exists m, 0 <= m <= qlen rb /\ rn' = u32 (isn + (r + m)) /\ qlen rq' = qlen rq + m /\
+    (m = 0 -> rq' = rq /\ rb' = rb) /\
+    (forall j, 0 <= j < H32 -> (j < r \/ has_sn (u32 (isn + j)) rb = true) ->
+               (j < r + m \/ has_sn (u32 (isn + j)) rb' = true)) /\
+    pg_stuck rb' rq' rn' rw /\
+    (match rb with x :: _ => s_sn x = u32 (isn + r) -> qlen rq < rw -> 1 <= m | [] => True end).
+Proof.
+  induction rb as [|s t IH]; intros rq r rb' rq' rn' E Hr Hb; cbn [move_ready] in E.
+  - inversion E; subst. exists 0. rewrite qlen_nil, !Z.add_0_r.
+    split; [lia|]. split; [reflexivity|]. split; [reflexivity|]. split; [auto|]. split; [auto|]. split; exact I.
+  - destruct ((s_sn s =? u32 (isn + r)) && (qlen rq <? rw)) eqn:Ec.
+    + apply andb_prop in Ec. destruct Ec as [E1 E2]. lv_b2z.
+      rewrite u32_add_mod in E. replace (isn + r + 1) with (isn + (r + 1)) in E by lia.
+      rewrite qlen_cons in Hb.
+      destruct (IH _ _ _ _ _ E) as (m & Hm & Hn & Hq & H0 & Hmono & Hst & _); [lia|lia|].
+      exists (1 + m). pose proof (qlen_nonneg t). rewrite qlen_cons.
+      split; [lia|]. split; [rewrite Hn; f_equal; lia|].
+      split; [rewrite Hq, qlen_app, qlen_cons, qlen_nil; lia|].
+      split; [intros; lia|].
+      split.
+      * intros j Hj Hcase. replace (r + (1 + m)) with (r + 1 + m) by lia. apply Hmono; [exact Hj|].
+        destruct Hcase as [Hlt|Hh]; [left; lia|].
+        rewrite has_sn_cons in Hh. apply orb_true_iff in Hh. destruct Hh as [Hh|Hh]; [|right; exact Hh].
+        lv_b2z. left. rewrite E1 in Hh.
+        assert (r = j) by (apply (u32_inj_index isn); [lia|exact Hh]). lia.
+      * split; [exact Hst|]. intros _ _. lia.
+    + inversion E; subst. exists 0. rewrite !Z.add_0_r. pose proof (qlen_nonneg (s :: t)).
+      split; [lia|]. split; [reflexivity|]. split; [reflexivity|]. split; [auto|]. split; [auto|].
+      split.
+      * unfold pg_stuck. apply andb_false_iff in Ec. destruct Ec as [Ec|Ec]; lv_b2z; [left; exact Ec|right; lia].
+      * intros E1 E2. apply andb_false_iff in Ec. destruct Ec as [Ec|Ec]; lv_b2z; [contradiction|lia].
+Qed.
+
+(* state level: `moved` is pg_stuck *)
+Lemma pg_moved_iff k : moved k <-> pg_stuck (rcv_buf k) (rcv_queue k) (rcv_nxt k) (rcv_wnd k).
+Proof. reflexivity. Qed.
+
+(* what the receive side of one endpoint looks like to the link invariant *)
+Definition pg_rv (k : kcp) := (rcv_nxt k, rcv_queue k, rcv_buf k, rcv_wnd k).
+
+Lemma pg_rv_got isn k k' i : pg_rv k' = pg_rv k -> got isn k i -> got isn k' i.
+Proof. unfold pg_rv, got. intros H. inversion H as [[E1 E2 E3 E4]]. rewrite E1, E3. auto. Qed.
+
+Lemma pg_rv_moved k k' : pg_rv k' = pg_rv k -> moved k -> moved k'.
+Proof. unfold pg_rv, moved. intros H. inversion H as [[E1 E2 E3 E4]]. rewrite E1, E2, E3, E4. auto. Qed.
+
+(* do_move_ready from a state whose rcv_nxt has index r *)
+Lemma pg_do_move_ready isn k r :
+  rcv_nxt k = u32 (isn + r) -> 0 <= r -> r + qlen (rcv_buf k) < H32 ->
+  exists m, 0 <= m <= qlen (rcv_buf k) /\ rcv_nxt (do_move_ready k) = u32 (isn + (r + m)) /\
+    qlen (rcv_queue (do_move_ready k)) = qlen (rcv_queue k) + m /\
+    (m = 0 -> rcv_queue (do_move_ready k) = rcv_queue k /\ rcv_buf (do_move_ready k) = rcv_buf k) /\
+    (forall j, 0 <= j < H32 -> (j < r \/ has_sn (u32 (isn + j)) (rcv_buf k) = true) ->
+               (j < r + m \/ has_sn (u32 (isn + j)) (rcv_buf (do_move_ready k)) = true)) /\
+    moved (do_move_ready k) /\
+    (match rcv_buf k with x :: _ => s_sn x = rcv_nxt k -> qlen (rcv_queue k) < rcv_wnd k -> 1 <= m
+                        | [] => True end).
+Proof.
+  intros Hn Hr Hb.
+  pose proof (do_move_ready_fields k) as F.
+  unfold do_move_ready in *.
+  destruct (move_ready (rcv_buf k) (rcv_queue k) (rcv_nxt k) (rcv_wnd k)) as [[rb rq] rn] eqn:E.
+  rewrite Hn in E.
+  destruct (pg_move_ready isn _ _ _ _ _ _ _ E Hr Hb) as (m & H1 & H2 & H3 & H0 & H4 & H5 & H6).
+  exists m. unfold moved. ksimpl. rewrite Hn.
+  split; [exact H1|]. split; [exact H2|]. split; [exact H3|]. split; [exact H0|]. split; [exact H4|].
+  split; [exact H5|exact H6].
+Qed.
+
+(* ================================================================== *)
+(* parse_data inside the window, with indices                          *)
+(* ================================================================== *)
+Lemma pg_parse_data isn k sg r i :
+  rb_sorted (rcv_nxt k) 0 (rcv_wnd k) (rcv_buf k) -> 1 <= rcv_wnd k < 32768 ->
+  rcv_nxt k = u32 (isn + r) -> 0 <= r -> r + rcv_wnd k + 1 < H32 ->
+  s_sn sg = u32 (isn + i) -> r <= i < r + rcv_wnd k -> blen (s_data sg) <= c_mtuLimit ->
+  exists k' f m, parse_data k sg = Ok (k', f) /\
+    0 <= m <= rcv_wnd k + 1 /\ rcv_nxt k' = u32 (isn + (r + m)) /\ qlen (rcv_queue k') = qlen (rcv_queue k) + m /\
+    (m = 0 -> rcv_queue k' = rcv_queue k) /\
+    (forall j, 0 <= j < H32 -> (j < r \/ has_sn (u32 (isn + j)) (rcv_buf k) = true) ->
+               (j < r + m \/ has_sn (u32 (isn + j)) (rcv_buf k') = true)) /\
+    (i < r + m \/ has_sn (u32 (isn + i)) (rcv_buf k') = true) /\ moved k' /\
+    (i = r -> qlen (rcv_queue k) < rcv_wnd k -> 1 <= m) /\
+    rcv_wnd k' = rcv_wnd k /\ acklist k' = acklist k /\ conv k' = conv k /\
+    snd_queue k' = snd_queue k /\ snd_buf k' = snd_buf k.
+Proof.
+  intros Hsort Hw Hn Hr Hb Hsn Hi Hlen.
+  assert (Hu : is_u32 (rcv_nxt k)) by (rewrite Hn; apply u32_range).
+  pose proof (rb_sorted_length _ _ _ _ Hsort ltac:(lia)) as Hql.
+  unfold parse_data. cbv zeta.
+  assert (D1 : itimediff (s_sn sg) (u32 (rcv_nxt k + rcv_wnd k)) = i - (r + rcv_wnd k)).
+  { rewrite Hsn, Hn, u32_add_mod. replace (isn + r + rcv_wnd k) with (isn + (r + rcv_wnd k)) by lia.
+    apply itimediff_index. unfold H32 in *. lia. }
+  assert (D2 : itimediff (s_sn sg) (rcv_nxt k) = i - r).
+  { rewrite Hsn, Hn. apply itimediff_index. unfold H32 in *. lia. }
+  rewrite D1, D2.
+  assert (Ew : (i - (r + rcv_wnd k) >=? 0) || (i - r <? 0) = false).
+  { apply orb_false_iff. split; [rewrite Z.geb_leb; apply Z.leb_gt; lia|apply Z.ltb_ge; lia]. }
+  rewrite Ew.
+  destruct (has_sn (s_sn sg) (rcv_buf k)) eqn:Eh.
+  - (* already parked *)
+    destruct (pg_do_move_ready isn k r Hn Hr) as (m & M1 & M2 & M3 & M0 & M4 & M5 & M6); [lia|].
+    pose proof (do_move_ready_fields k) as F.
+    exists (do_move_ready k), true, m. split; [reflexivity|].
+    split; [lia|]. split; [exact M2|]. split; [exact M3|]. split; [intros E0; apply M0; exact E0|].
+    split; [exact M4|].
+    split; [apply M4; [unfold H32 in *; lia|right; rewrite <- Hsn; exact Eh]|].
+    split; [exact M5|]. split.
+    + intros Eir Hroom. subst i.
+      assert (Eh' : has_sn (rcv_nxt k) (rcv_buf k) = true) by (rewrite Hn, <- Hsn; exact Eh).
+      destruct (pg_sorted_head _ _ _ Hsort Hu Eh') as (x & t & El & Ex).
+      rewrite El in M6. apply M6; assumption.
+    + destruct F as (F1 & F2 & F3 & F4 & F5 & F6 & F7 & F8 & F9 & F10 & F11 & F12 & F13 & F14 & F15 & F16).
+      unfold do_move_ready.
+      destruct (move_ready (rcv_buf k) (rcv_queue k) (rcv_nxt k) (rcv_wnd k)) as [[rb rq] rn].
+      ksimpl. repeat split; reflexivity.
+  - destruct (blen (s_data sg) >? c_mtuLimit) eqn:El; lv_b2z; [lia|].
+    set (k1 := set_rcv_buf k (insert_seg sg (rcv_buf k))).
+    assert (Hn1 : rcv_nxt k1 = u32 (isn + r)) by exact Hn.
+    assert (Hq1 : qlen (rcv_buf k1) = 1 + qlen (rcv_buf k)) by (unfold k1; ksimpl; apply insert_seg_qlen).
+    destruct (pg_do_move_ready isn k1 r Hn1 Hr) as (m & M1 & M2 & M3 & M0 & M4 & M5 & M6); [lia|].
+    exists (do_move_ready k1), false, m. split; [reflexivity|].
+    split; [lia|]. split; [exact M2|]. split; [exact M3|]. split; [intros E0; apply M0; exact E0|].
+    split.
+    { intros j Hj Hc. apply M4; [exact Hj|]. destruct Hc as [Hc|Hc]; [left; exact Hc|right].
+      unfold k1. ksimpl. apply pg_has_sn_insert. right; exact Hc. }
+    split.
+    { apply M4; [unfold H32 in *; lia|]. right. unfold k1. ksimpl. apply pg_has_sn_insert. left. exact Hsn. }
+    split; [exact M5|]. split.
+    + intros Eir Hroom. subst i.
+      assert (Ehd : insert_seg sg (rcv_buf k) = sg :: rcv_buf k).
+      { apply (pg_insert_head (rcv_nxt k) (rcv_wnd k)); [exact Hsort|exact Eh|rewrite Hn; exact Hsn|exact Hu]. }
+      unfold k1 in M6. ksimpl_in M6. rewrite Ehd in M6. apply M6; [rewrite Hn; exact Hsn|exact Hroom].
+    + unfold do_move_ready.
+      destruct (move_ready (rcv_buf k1) (rcv_queue k1) (rcv_nxt k1) (rcv_wnd k1)) as [[rb rq] rn].
+      unfold k1. ksimpl. repeat split; reflexivity.
+Qed.
+
+(* ================================================================== *)
+(* B: one endpoint that only receives data                             *)
+(* ================================================================== *)
+Definition pg_ackp (isn : Z) (k : kcp) (p : Z * Z) : Prop :=
+  is_u32 (fst p) /\ is_u32 (snd p) /\ got isn k (idx isn (fst p)).
+
+Record pg_bi (isn : Z) (src : list (Z * bytes)) (g : receiver_ghost) (k : kcp) : Prop := mkBI {
+  BI_inv : inv k;
+  BI_rcv : nr_rcvk src g k;
+  BI_isn : rg_isn g = isn /\ is_u32 isn;
+  BI_conv : is_u32 (conv k);
+  BI_idle : snd_queue k = [] /\ snd_buf k = [];
+  BI_acks : Forall (pg_ackp isn k) (acklist k);
+  BI_moved : moved k
+}.
+
+(* how the receive side of an endpoint evolves *)
+Definition pg_bmono (isn : Z) (k k' : kcp) : Prop :=
+  idx isn (rcv_nxt k) <= idx isn (rcv_nxt k') /\
+  (forall i, got isn k i -> got isn k' i) /\
+  (idx isn (rcv_nxt k') = idx isn (rcv_nxt k) -> qlen (rcv_queue k') <= qlen (rcv_queue k)) /\
+  rcv_wnd k' = rcv_wnd k /\ conv k' = conv k.
+
+Lemma pg_bmono_refl isn k : pg_bmono isn k k.
+Proof. unfold pg_bmono. split; [lia|]. split; [auto|]. split; [lia|]. split; reflexivity. Qed.
+
+Lemma pg_bmono_trans isn k1 k2 k3 : pg_bmono isn k1 k2 -> pg_bmono isn k2 k3 -> pg_bmono isn k1 k3.
+Proof.
+  intros (A1 & A2 & A3 & A4 & A5) (B1 & B2 & B3 & B4 & B5).
+  split; [lia|]. split; [auto|]. split; [intros E; assert (idx isn (rcv_nxt k2) = idx isn (rcv_nxt k1)) by lia;
+    assert (idx isn (rcv_nxt k3) = idx isn (rcv_nxt k2)) by lia; specialize (A3 ltac:(assumption));
+    specialize (B3 ltac:(assumption)); lia|].
+  split; congruence.
+Qed.
+
+Lemma pg_bmono_rv isn k k' : pg_rv k' = pg_rv k -> conv k' = conv k -> pg_bmono isn k k'.
+Proof.
+  intros H Hc. pose proof H as H0. unfold pg_rv in H0. inversion H0 as [[E1 E2 E3 E4]].
+  unfold pg_bmono. rewrite E1, E2. split; [lia|]. split; [intros i; apply pg_rv_got; exact H|].
+  split; [lia|]. split; assumption.
+Qed.
+
+(* the index of rcv_nxt under the receiver invariant *)
+Lemma pg_ridx src g k isn :
+  nr_rcvk src g k -> rg_isn g = isn -> no_wrap src ->
+  exists r, rcv_nxt k = u32 (isn + r) /\ 0 <= r <= Z.of_nat (length src) /\ idx isn (rcv_nxt k) = r.
+Proof.
+  intros ((r & done & Hrd & Hrn & _) & _) Hisn Hnw. exists (Z.of_nat r). rewrite <- Hisn.
+  split; [exact Hrn|]. split; [lia|]. rewrite Hrn. apply pg_idx_u32. unfold no_wrap, H32, W32 in *. lia.
+Qed.
+
+Lemma pg_ackp_mono isn k k' p : (forall i, got isn k i -> got isn k' i) -> pg_ackp isn k p -> pg_ackp isn k' p.
+Proof. intros H (A & B & C). split; [exact A|]. split; [exact B|apply H; exact C]. Qed.
+
+(* snd side of an idle endpoint through the pre-flush part of Input *)
+Lemma pg_idle_pre k k' : ns_pre k k' -> snd_queue k = [] /\ snd_buf k = [] -> snd_queue k' = [] /\ snd_buf k' = [].
+Proof.
+  intros ((j & Hj & F) & Hq & _) [Eq Eb]. split; [congruence|].
+  rewrite Eb in F. destruct j; cbn [skipn] in F; inversion F; reflexivity.
+Qed.
+
+
+Lemma pg_fr_rv k k' : lv_fr k' = lv_fr k ->
+  pg_rv k' = pg_rv k /\ conv k' = conv k /\ acklist k' = acklist k.
+Proof. unfold lv_fr, pg_rv. intros H. inversion H. repeat split; reflexivity. Qed.
+
+Lemma pg_b_seg isn src g a s rest reg :
+  no_wrap src -> pg_bi isn src g (i_k a) -> is_byte_list rest ->
+  seg_wf s -> s_conv s = conv (i_k a) -> cmd_ok (s_cmd s) -> genuine_seg isn src s ->
+  exists a', input_seg a (encode_seg s ++ rest) reg = inl (Ok (a', rest)) /\
+    pg_bi isn src g (i_k a') /\ pg_bmono isn (i_k a) (i_k a') /\
+    (exists ext, acklist (i_k a') = acklist (i_k a) ++ ext) /\
+    (s_cmd s = c_IKCP_CMD_PUSH -> forall i, s_sn s = u32 (isn + i) -> 0 <= i < H32 - 65536 ->
+       (i < idx isn (rcv_nxt (i_k a)) \/
+        (i = idx isn (rcv_nxt (i_k a)) /\ qlen (rcv_queue (i_k a)) < rcv_wnd (i_k a))) ->
+       i < idx isn (rcv_nxt (i_k a')) /\ acklist (i_k a') <> []).
+Proof.
+  intros Hnw [Hinv Hrcv [Hisn Hisnu] Hconv Hidle Hacks Hmoved] Hrest Hwf Hcv Hcmd Hgen.
+  set (k := i_k a) in *.
+  destruct (pg_ridx src g k isn Hrcv Hisn Hnw) as (r & Hrn & Hr & Hridx).
+  pose proof (I_rcv_wnd _ Hinv) as Hrw. pose proof (I_rb_sorted _ Hinv) as Hsort.
+  assert (Hsrc : Z.of_nat (length src) < H32 - 65536) by exact Hnw.
+  assert (Hbytes : is_byte_list (encode_seg s ++ rest)).
+  { apply ns_is_byte_list_app. split; [apply nr_encode_bytes; exact Hwf|exact Hrest]. }
+  assert (Hblen : c_IKCP_OVERHEAD <= blen (encode_seg s ++ rest)).
+  { rewrite blen_app, lv_encode_len. pose proof (blen_nonneg (s_data s)). pose proof (blen_nonneg rest). lia. }
+  pose proof (ii_input_seg_ok a _ reg Hinv Hbytes Hblen) as Hii.
+  pose proof (nr_input_seg src g a s rest reg Hnw Hwf) as Hnr. rewrite Hisn in Hnr. specialize (Hnr Hgen Hrcv).
+  pose proof (ns_input_seg_pre a _ reg Hbytes) as Hns.
+  (* the explicit result *)
+  assert (Hexp : exists a', input_seg a (encode_seg s ++ rest) reg = inl (Ok (a', rest)) /\
+     pg_bmono isn k (i_k a') /\ moved (i_k a') /\
+     (exists ext, acklist (i_k a') = acklist k ++ ext /\ Forall (pg_ackp isn (i_k a')) ext) /\
+     (s_cmd s = c_IKCP_CMD_PUSH -> forall i, s_sn s = u32 (isn + i) -> 0 <= i < H32 - 65536 ->
+       (i < r \/ (i = r /\ qlen (rcv_queue k) < rcv_wnd k)) ->
+       i < idx isn (rcv_nxt (i_k a')) /\ acklist (i_k a') <> [])).
+  { rewrite (lv_input_seg_eq a s rest reg Hwf Hcv Hcmd). rewrite lv_in_tail_pre. cbv zeta.
+    pose proof (lv_fr_pre a s reg) as Hfr.
+    assert (Hfr' : conv (lv_pre a s reg) = conv k /\ rcv_nxt (lv_pre a s reg) = rcv_nxt k /\
+                   rcv_wnd (lv_pre a s reg) = rcv_wnd k /\ acklist (lv_pre a s reg) = acklist k /\
+                   rcv_queue (lv_pre a s reg) = rcv_queue k /\ rcv_buf (lv_pre a s reg) = rcv_buf k).
+    { unfold lv_fr in Hfr. fold k in Hfr. destruct reg; inversion Hfr; repeat split; reflexivity. }
+    destruct Hfr' as (P1 & P2 & P3 & P4 & P5 & P6).
+    set (kp := lv_pre a s reg) in *.
+    assert (Hrvp : pg_rv kp = pg_rv k) by (unfold pg_rv; rewrite P2, P3, P5, P6; reflexivity).
+    assert (Hsame : forall k', pg_rv k' = pg_rv kp -> conv k' = conv kp -> acklist k' = acklist kp ->
+              pg_bmono isn k k' /\ moved k' /\
+              (exists ext, acklist k' = acklist k ++ ext /\ Forall (pg_ackp isn k') ext)).
+    { intros k' Hrv Hc Ha. assert (Hrv' : pg_rv k' = pg_rv k) by congruence.
+      split; [apply pg_bmono_rv; [exact Hrv'|congruence]|].
+      split; [apply (pg_rv_moved k); assumption|].
+      exists []. rewrite app_nil_r. split; [congruence|constructor]. }
+    destruct Hcmd as [E|[E|[E|E]]]; rewrite E.
+    - (* PUSH *)
+      change (c_IKCP_CMD_PUSH =? c_IKCP_CMD_ACK) with false.
+      change (c_IKCP_CMD_PUSH =? c_IKCP_CMD_PUSH) with true. cbv iota.
+      destruct (Hgen E) as (i0 & Hi0 & Hsn0 & _).
+      rewrite P2, P3, P4.
+      assert (Hinj : forall i, s_sn s = u32 (isn + i) -> 0 <= i < H32 - 65536 -> i = Z.of_nat i0).
+      { intros i Hs Hi. apply (u32_inj_index isn); [unfold H32 in *; lia|congruence]. }
+      assert (D1 : itimediff (s_sn s) (u32 (rcv_nxt k + rcv_wnd k)) = Z.of_nat i0 - (r + rcv_wnd k)).
+      { rewrite Hsn0, Hrn, u32_add_mod. replace (isn + r + rcv_wnd k) with (isn + (r + rcv_wnd k)) by lia.
+        apply itimediff_index. unfold H32 in *. lia. }
+      rewrite D1.
+      destruct (Z.of_nat i0 - (r + rcv_wnd k) <? 0) eqn:Ew; lv_b2z.
+      + set (k4 := set_acklist kp (acklist k ++ [(s_sn s, s_ts s)])).
+        assert (D2 : itimediff (s_sn s) (rcv_nxt k4) = Z.of_nat i0 - r).
+        { unfold k4. ksimpl. rewrite P2, Hsn0, Hrn. apply itimediff_index. unfold H32 in *. lia. }
+        rewrite D2.
+        assert (Hu32 : is_u32 (s_sn s) /\ is_u32 (s_ts s)).
+        { destruct Hwf as (_ & _ & _ & _ & W5 & W6 & _). split; assumption. }
+        assert (Hidx0 : idx isn (s_sn s) = Z.of_nat i0).
+        { rewrite Hsn0. apply pg_idx_u32. unfold H32, W32 in *. lia. }
+        destruct (Z.of_nat i0 - r >=? 0) eqn:Ed; lv_b2z.
+        * (* inside the window *)
+          set (sg := mkSeg (s_conv s) c_IKCP_CMD_PUSH (s_frg s) (s_wnd s) (s_ts s) (s_sn s) (s_una s) 0 0 0 0 0 (s_data s)).
+          destruct (pg_parse_data isn k4 sg r (Z.of_nat i0)) as
+            (k5 & f & m & Epd & M0 & M1 & M2 & Mz & M3 & M4 & M5 & M6 & M7 & M8 & M9 & _).
+          { unfold k4. ksimpl. rewrite P2, P3, P6. exact Hsort. }
+          { unfold k4. ksimpl. rewrite P3. exact Hrw. }
+          { unfold k4. ksimpl. rewrite P2. exact Hrn. }
+          { lia. }
+          { unfold k4. ksimpl. rewrite P3. unfold H32 in *. lia. }
+          { exact Hsn0. }
+          { unfold k4. ksimpl. rewrite P3. lia. }
+          { destruct Hwf as (_ & _ & _ & _ & _ & _ & _ & _ & W9). exact W9. }
+          fold sg. rewrite Epd. eexists. split; [reflexivity|]. cbn [i_k].
+          unfold k4 in M0, M2, Mz, M3, M6, M7, M8, M9. ksimpl_in M0. ksimpl_in M2. ksimpl_in Mz. ksimpl_in M3.
+          ksimpl_in M6. ksimpl_in M7. ksimpl_in M8. ksimpl_in M9.
+          rewrite ?P3, ?P5, ?P6 in *.
+          assert (Hr5 : idx isn (rcv_nxt k5) = r + m).
+          { rewrite M1. apply pg_idx_u32. unfold H32, W32 in *. lia. }
+          assert (Hgot5 : forall j, got isn k j -> got isn k5 j).
+          { intros j (Hj & Hc). split; [exact Hj|]. rewrite Hr5. rewrite Hridx in Hc. apply M3; assumption. }
+          split.
+          { unfold pg_bmono. rewrite Hr5, Hridx. split; [lia|]. split; [exact Hgot5|].
+            split; [intros E0; assert (m = 0) by lia; rewrite (Mz H); lia|].
+            split; [exact M7|congruence]. }
+          split; [exact M5|]. split.
+          { exists [(s_sn s, s_ts s)]. split; [exact M8|]. constructor; [|constructor].
+            unfold pg_ackp. cbn [fst snd]. split; [exact (proj1 Hu32)|]. split; [exact (proj2 Hu32)|].
+            rewrite Hidx0. split; [unfold H32 in *; lia|]. rewrite Hr5. exact M4. }
+          intros _ i Hs Hi Hc. rewrite (Hinj i Hs Hi) in *. rewrite Hr5.
+          split; [|rewrite M8; intros Hn; destruct (acklist k); discriminate].
+          destruct Hc as [Hc|[Hc Hroom]]; [lia|]. specialize (M6 Hc Hroom). lia.
+        * (* a duplicate below rcv_nxt *)
+          eexists. split; [reflexivity|]. cbn [i_k].
+          assert (Hrv4 : pg_rv k4 = pg_rv k) by exact Hrvp.
+          split; [apply pg_bmono_rv; [exact Hrv4|exact P1]|].
+          split; [apply (pg_rv_moved k); assumption|]. split.
+          { exists [(s_sn s, s_ts s)]. split; [reflexivity|]. constructor; [|constructor].
+            unfold pg_ackp. cbn [fst snd]. split; [exact (proj1 Hu32)|]. split; [exact (proj2 Hu32)|].
+            rewrite Hidx0. apply (pg_rv_got isn k k4); [exact Hrv4|].
+            split; [unfold H32 in *; lia|]. left. rewrite Hridx. lia. }
+          intros _ i Hs Hi Hc. rewrite (Hinj i Hs Hi) in *.
+          change (rcv_nxt k4) with (rcv_nxt kp). rewrite P2, Hridx.
+          split; [lia|]. unfold k4. ksimpl. intros Hn; destruct (acklist k); discriminate.
+      + (* beyond the window: ignored *)
+        eexists. split; [reflexivity|]. cbn [i_k].
+        destruct (Hsame kp eq_refl eq_refl eq_refl) as (S1 & S2 & S3).
+        split; [exact S1|]. split; [exact S2|]. split; [exact S3|].
+        intros _ i Hs Hi Hc. rewrite (Hinj i Hs Hi) in *. lia.
+    - (* ACK *)
+      change (c_IKCP_CMD_ACK =? c_IKCP_CMD_ACK) with true. cbv iota.
+      pose proof (lv_fr_parse_fastack (parse_ack kp (s_sn s)) (s_sn s) (s_ts s)) as F2.
+      destruct (parse_fastack (parse_ack kp (s_sn s)) (s_sn s) (s_ts s)) as [k2 f]. cbn [fst] in F2.
+      pose proof (lv_fr_shrink_buf k2) as F3. rewrite F2, lv_fr_parse_ack in F3.
+      destruct (pg_fr_rv _ _ F3) as (R1 & R2 & R3).
+      eexists. split; [reflexivity|]. cbn [i_k].
+      destruct (Hsame _ R1 R2 R3) as (S1 & S2 & S3).
+      split; [exact S1|]. split; [exact S2|]. split; [exact S3|].
+      intros Hc. unfold c_IKCP_CMD_ACK, c_IKCP_CMD_PUSH in Hc. discriminate.
+    - (* WASK *)
+      change (c_IKCP_CMD_WASK =? c_IKCP_CMD_ACK) with false.
+      change (c_IKCP_CMD_WASK =? c_IKCP_CMD_PUSH) with false.
+      change (c_IKCP_CMD_WASK =? c_IKCP_CMD_WASK) with true. cbv iota.
+      eexists. split; [reflexivity|]. cbn [i_k].
+      destruct (Hsame (set_probe_flags kp (Z.lor (probe kp) c_IKCP_ASK_TELL)) eq_refl eq_refl eq_refl) as (S1 & S2 & S3).
+      split; [exact S1|]. split; [exact S2|]. split; [exact S3|].
+      intros Hc. unfold c_IKCP_CMD_WASK, c_IKCP_CMD_PUSH in Hc. discriminate.
+    - (* WINS *)
+      change (c_IKCP_CMD_WINS =? c_IKCP_CMD_ACK) with false.
+      change (c_IKCP_CMD_WINS =? c_IKCP_CMD_PUSH) with false.
+      change (c_IKCP_CMD_WINS =? c_IKCP_CMD_WASK) with false. cbv iota.
+      eexists. split; [reflexivity|]. cbn [i_k].
+      destruct (Hsame kp eq_refl eq_refl eq_refl) as (S1 & S2 & S3).
+      split; [exact S1|]. split; [exact S2|]. split; [exact S3|].
+      intros Hc. unfold c_IKCP_CMD_WINS, c_IKCP_CMD_PUSH in Hc. discriminate. }
+  destruct Hexp as (a' & Ea & Hmono & Hmv & (ext & Hext & Hextok) & Hhit).
+  rewrite Ea in Hii, Hnr, Hns.
+  destruct Hii as (Hinv' & _). destruct Hnr as (_ & Hrcv'). destruct Hns as (Hpre & _).
+  exists a'. split; [exact Ea|].
+  split.
+  { constructor; try assumption.
+    - split; assumption.
+    - destruct Hmono as (_ & _ & _ & _ & Hc5). rewrite Hc5. exact Hconv.
+    - exact (pg_idle_pre _ _ Hpre Hidle).
+    - rewrite Hext. apply Forall_app. split; [|exact Hextok].
+      eapply Forall_impl; [|exact Hacks]. intros p. apply pg_ackp_mono. exact (proj1 (proj2 Hmono)). }
+  split; [exact Hmono|]. split; [exists ext; exact Hext|].
+  rewrite Hridx. exact Hhit.
+Qed.
+
+(* ================================================================== *)
+(* what an endpoint with an idle sending side emits                    *)
+(* ================================================================== *)
+(* the control segment flush builds from its header template *)
+Definition pg_ctl (k : kcp) (c sn ts : Z) : seg :=
+  mkSeg (conv k) c 0 (wnd_unused k) ts sn (rcv_nxt k) 0 0 0 0 0 [].
+
+(* header templates met while flushing acklist `al` *)
+Definition pg_hdr_ok (k : kcp) (al : list (Z * Z)) (h : seg) : Prop :=
+  s_conv h = conv k /\ s_cmd h = c_IKCP_CMD_ACK /\ s_frg h = 0 /\ s_wnd h = wnd_unused k /\
+  s_una h = rcv_nxt k /\ ((s_sn h, s_ts h) = (0, 0) \/ In (s_sn h, s_ts h) al).
+
+Lemma pg_acks_out (P : seg -> Prop) k k0 al0 : forall al h st h' st',
+  (forall sn ts, In (sn, ts) al0 -> P (pg_ctl k0 c_IKCP_CMD_ACK sn ts)) ->
+  (forall p, In p al -> In p al0) ->
+  pg_hdr_ok k0 al0 h -> ns_stage_ok P st -> flush_acks k h st al = Ok (h', st') ->
+  pg_hdr_ok k0 al0 h' /\ ns_stage_ok P st'.
+Proof.
+  induction al as [|[sn ts] t IH]; intros h st h' st' HP Hsub Hh Hst H; cbn [flush_acks] in H.
+  - inversion H; subst. split; assumption.
+  - pose proof (ns_space_ok P k st c_IKCP_OVERHEAD Hst) as Hst1.
+    assert (Hsub' : forall p, In p t -> In p al0) by (intros p Hp; apply Hsub; right; exact Hp).
+    destruct ((itimediff sn (rcv_nxt k) >=? 0) || match t with [] => true | _ :: _ => false end).
+    + set (h1 := mkSeg (s_conv h) (s_cmd h) (s_frg h) (s_wnd h) ts sn (s_una h) 0 0 0 0 0 []) in *.
+      destruct (stage_write k (make_space k st c_IKCP_OVERHEAD) h1) as [st2|w] eqn:Ew; [|discriminate].
+      destruct Hh as (H1 & H2 & H3 & H4 & H5 & H6).
+      assert (Hin : In (sn, ts) al0) by (apply Hsub; left; reflexivity).
+      assert (Hh1 : pg_hdr_ok k0 al0 h1).
+      { unfold pg_hdr_ok, h1. lv_segf. repeat (split; [assumption|]). right. exact Hin. }
+      assert (Hp : P h1).
+      { unfold h1. rewrite H1, H2, H3, H4, H5. exact (HP sn ts Hin). }
+      apply (IH h1 st2 h' st' HP Hsub' Hh1); [|exact H].
+      exact (ns_write_ok P _ _ _ _ Hst1 Hp Ew).
+    + exact (IH h _ h' st' HP Hsub' Hh Hst1 H).
+Qed.
+
+Lemma pg_flush_out_idle (P : seg -> Prop) k ft now k' nx o :
+  snd_queue k = [] -> snd_buf k = [] -> flush k ft now = Ok (k', nx, o) ->
+  (forall sn ts, In (sn, ts) (acklist k) -> P (pg_ctl k c_IKCP_CMD_ACK sn ts)) ->
+  (forall c sn ts, c = c_IKCP_CMD_WASK \/ c = c_IKCP_CMD_WINS ->
+     (sn, ts) = (0, 0) \/ In (sn, ts) (acklist k) -> P (pg_ctl k c sn ts)) ->
+  Forall (ns_dg P) o.
+Proof.
+  intros Hq Hb Hfl HPa HPc.
+  destruct (ns_flush_invert _ _ _ _ _ _ Hfl)
+    as (h1 & st1 & k1 & st2 & st3 & sq & sb & nxt & ns & sb' & fa & E1 & E2 & E3 & E4 & E5 & Ek & Eo).
+  (* phase 1 *)
+  assert (H1 : pg_hdr_ok k (acklist k) h1 /\ ns_stage_ok P st1).
+  { assert (Hh0 : pg_hdr_ok k (acklist k) (ns_h0 k)).
+    { unfold pg_hdr_ok, ns_h0. lv_segf. repeat (split; [reflexivity|]). left; reflexivity. }
+    unfold ns_ph1 in E1. destruct ((ft =? FLUSH_ACKONLY) || (ft =? FLUSH_FULL)).
+    - destruct (flush_acks k (ns_h0 k) (mkStage [] []) (acklist k)) as [[h st]|w] eqn:Ef; [|discriminate].
+      inversion E1; subst h st k1.
+      exact (pg_acks_out P k k (acklist k) _ _ _ _ _ HPa (fun p Hp => Hp) Hh0 (ns_stage0 P) Ef).
+    - inversion E1; subst. split; [exact Hh0|apply ns_stage0]. }
+  destruct H1 as [Hh1 Hst1].
+  (* phase 3 *)
+  assert (H3 : forall st st' flag c, c = c_IKCP_CMD_WASK \/ c = c_IKCP_CMD_WINS -> ns_stage_ok P st ->
+                 ns_ph3 (ns_ph2 k1 now) h1 st flag c = Ok st' -> ns_stage_ok P st').
+  { intros st st' flag c Hc Hst. unfold ns_ph3. destruct (negb (Z.land (probe (ns_ph2 k1 now)) flag =? 0)).
+    - intros H. eapply ns_write_ok; [apply ns_space_ok; exact Hst| |exact H].
+      destruct Hh1 as (A1 & A2 & A3 & A4 & A5 & A6). unfold ns_hdr. rewrite A1, A3, A4, A5.
+      apply (HPc c (s_sn h1) (s_ts h1) Hc). exact A6.
+    - intros H; inversion H; subst. exact Hst. }
+  pose proof (H3 _ _ _ _ (or_introl eq_refl) Hst1 E2) as Hst2.
+  pose proof (H3 _ _ _ _ (or_intror eq_refl) Hst2 E3) as Hst3.
+  (* phases 4 and 5: nothing to send *)
+  assert (F1 : snd_queue k1 = [] /\ snd_buf k1 = []).
+  { destruct (ns_ph1_k _ _ _ _ _ E1) as [E|E]; subst k1; ksimpl; split; assumption. }
+  pose proof (ns_sf_ph2 k1 now) as (Gq & Gb & _).
+  destruct (ns_ph4_spec _ _ _ _ _ _ E4) as (pre & adm & Eq & Esb & Hadm).
+  change (snd_queue (set_probe_flags (ns_ph2 k1 now) 0)) with (snd_queue (ns_ph2 k1 now)) in Eq.
+  change (snd_buf (set_probe_flags (ns_ph2 k1 now) 0)) with (snd_buf (ns_ph2 k1 now)) in Esb.
+  rewrite Gq, (proj1 F1) in Eq. rewrite Gb, (proj2 F1) in Esb.
+  assert (pre = []) by (destruct pre; [reflexivity|discriminate]). subst pre.
+  inversion Hadm; subst adm. cbn [app] in Esb. subst sb.
+  destruct (ns_ph5_ok P _ _ _ _ _ _ _ _ E5) as [_ Hst5].
+  rewrite Eo. apply ns_buffer_ok. apply Hst5; [exact Hst3|]. constructor.
+Qed.
+
+(* the state after a flush of an idle endpoint *)
+Lemma pg_flush_idle_state k ft now k' nx o :
+  inv k -> snd_queue k = [] -> snd_buf k = [] -> flush k ft now = Ok (k', nx, o) ->
+  (ft = FLUSH_FULL \/ ft = FLUSH_ACKONLY) ->
+  pg_rv k' = pg_rv k /\ conv k' = conv k /\ acklist k' = [] /\ snd_queue k' = [] /\ snd_buf k' = [] /\
+  mtu k' = mtu k /\ rmt_wnd k' = rmt_wnd k.
+Proof.
+  intros Hinv Hq Hb Hfl Hft.
+  destruct (fl_shape k ft now k' nx o Hfl)
+    as (al & tsp & pw & st & sst & cwn & inc & h1 & st3 & sq & sb & nxt & ns & k4 & sb' & a &
+        Hk' & Hal & _ & _ & E4 & Esb & E5).
+  assert (Esq : sq = [] /\ sb = []).
+  { unfold fl_ph4 in E4. rewrite Hq, Hb in E4. destruct (ft =? FLUSH_FULL); cbn [admit_segs] in E4;
+      inversion E4; split; reflexivity. }
+  destruct Esq as [-> ->].
+  pose proof (fl_ph5_rel _ _ _ _ _ _ _ _ E5) as Hrel. rewrite Esb in Hrel. inversion Hrel; subst sb'.
+  subst k'. unfold fl_final, pg_rv. fl_fields. rewrite (Hal Hft). repeat split; reflexivity.
+Qed.
+
+(* ================================================================== *)
+(* B's segments                                                        *)
+(* ================================================================== *)
+(* a segment emitted by a receive-only endpoint in state k *)
+Definition pg_bseg (isn : Z) (k : kcp) (x : seg) : Prop :=
+  seg_wf x /\ s_conv x = conv k /\
+  (s_cmd x = c_IKCP_CMD_ACK \/ s_cmd x = c_IKCP_CMD_WASK \/ s_cmd x = c_IKCP_CMD_WINS) /\
+  s_una x = rcv_nxt k /\ (s_cmd x = c_IKCP_CMD_ACK -> got isn k (idx isn (s_sn x))).
+
+Lemma pg_bseg_ctl isn k c sn ts :
+  inv k -> is_u32 (conv k) -> c = c_IKCP_CMD_ACK \/ c = c_IKCP_CMD_WASK \/ c = c_IKCP_CMD_WINS ->
+  is_u32 sn -> is_u32 ts -> (c = c_IKCP_CMD_ACK -> got isn k (idx isn sn)) ->
+  pg_bseg isn k (pg_ctl k c sn ts).
+Proof.
+  intros Hinv Hc Hcmd Hsn Hts Hgot. unfold pg_bseg, pg_ctl. lv_segf.
+  split; [|split; [reflexivity|split; [exact Hcmd|split; [reflexivity|exact Hgot]]]].
+  unfold seg_wf. lv_segf. split; [exact Hc|].
+  split; [unfold c_IKCP_CMD_ACK, c_IKCP_CMD_WASK, c_IKCP_CMD_WINS in Hcmd; lia|].
+  split; [lia|]. split; [apply ns_wnd_unused_range|]. split; [exact Hts|]. split; [exact Hsn|].
+  split; [exact (I_rnxt_u32 _ Hinv)|]. split; [constructor|]. change (blen []) with 0. unfold c_mtuLimit. lia.
+Qed.
+
+(* ================================================================== *)
+(* B, call by call                                                     *)
+(* ================================================================== *)
+Definition pg_segB (isn : Z) (src : list (Z * bytes)) (cv : Z) (s : seg) : Prop :=
+  seg_wf s /\ s_conv s = cv /\ cmd_ok (s_cmd s) /\ genuine_seg isn src s.
+
+(* index i is below rcv_nxt, or is the next one and the delivery queue has room *)
+Definition pg_J (isn : Z) (k : kcp) (i : Z) : Prop :=
+  i < idx isn (rcv_nxt k) \/ (i = idx isn (rcv_nxt k) /\ qlen (rcv_queue k) < rcv_wnd k).
+
+(* some non-empty datagram of o consists of segments of state k *)
+Definition pg_out_some (isn : Z) (k : kcp) (o : list bytes) : Prop :=
+  exists d x t, In d o /\ d = concat (map encode_seg (x :: t)) /\ Forall (pg_bseg isn k) (x :: t).
+
+Lemma pg_J_mono isn k k' i : pg_bmono isn k k' -> pg_J isn k i -> pg_J isn k' i.
+Proof.
+  intros (T1 & _ & T3 & T4 & _) [H|[H1 H2]]; unfold pg_J.
+  - left; lia.
+  - destruct (Z.eq_dec (idx isn (rcv_nxt k')) (idx isn (rcv_nxt k))) as [E|E].
+    + right. specialize (T3 E). rewrite T4. lia.
+    + left. lia.
+Qed.
+
+Lemma pg_bseg_rv isn k k' x : pg_rv k' = pg_rv k -> conv k' = conv k -> pg_bseg isn k x -> pg_bseg isn k' x.
+Proof.
+  intros Hrv Hc (A & B & C & D & E). pose proof Hrv as H0. unfold pg_rv in H0. inversion H0 as [[E1 E2 E3 E4]].
+  unfold pg_bseg. rewrite Hc, E1. split; [exact A|]. split; [exact B|]. split; [exact C|]. split; [exact D|].
+  intros Hc'. apply (pg_rv_got isn k k'); [exact Hrv|]. exact (E Hc').
+Qed.
+
+Lemma pg_rv_nr k k' : pg_rv k' = pg_rv k -> nr_rcv k' = nr_rcv k.
+Proof. unfold pg_rv, nr_rcv. intros H. inversion H. reflexivity. Qed.
+
+Lemma pg_bi_frame isn src g k k' :
+  pg_bi isn src g k -> inv k' -> pg_rv k' = pg_rv k -> conv k' = conv k -> acklist k' = acklist k ->
+  snd_queue k' = snd_queue k -> snd_buf k' = snd_buf k -> pg_bi isn src g k'.
+Proof.
+  intros [Hinv Hrcv Hisn Hconv Hidle Hacks Hmoved] Hinv' Hrv Hc Ha Hq Hb.
+  constructor.
+  - exact Hinv'.
+  - apply (nr_rcvk_frame src g k k'); [apply pg_rv_nr; exact Hrv|exact Hrcv].
+  - exact Hisn.
+  - rewrite Hc; exact Hconv.
+  - rewrite Hq, Hb; exact Hidle.
+  - rewrite Ha. eapply Forall_impl; [|exact Hacks]. intros p. apply pg_ackp_mono.
+    intros i. apply pg_rv_got. exact Hrv.
+  - apply (pg_rv_moved k); assumption.
+Qed.
+
+(* ---- flush ---- *)
+Lemma pg_b_flush isn src g k ft now k' nx o :
+  pg_bi isn src g k -> ft = FLUSH_FULL \/ ft = FLUSH_ACKONLY -> flush k ft now = Ok (k', nx, o) ->
+  pg_bi isn src g k' /\ pg_rv k' = pg_rv k /\ conv k' = conv k /\ acklist k' = [] /\
+  Forall (ns_dg (pg_bseg isn k')) o /\ (acklist k <> [] -> pg_out_some isn k' o).
+Proof.
+  intros Hbi Hft Hfl. pose proof Hbi as [Hinv Hrcv Hisn Hconv [Hq Hb] Hacks Hmoved].
+  destruct (pg_flush_idle_state k ft now k' nx o Hinv Hq Hb Hfl Hft) as (Hrv & Hc & Ha & Hq' & Hb' & _).
+  destruct (flush_ok k ft now Hinv) as (k2 & nx2 & o2 & Hfl2 & Hinv' & _).
+  rewrite Hfl in Hfl2. inversion Hfl2; subst k2 nx2 o2. clear Hfl2.
+  assert (Hout : Forall (ns_dg (pg_bseg isn k')) o).
+  { apply (pg_flush_out_idle (pg_bseg isn k') k ft now k' nx o Hq Hb Hfl).
+    - intros sn ts Hin. apply (pg_bseg_rv isn k k'); [exact Hrv|exact Hc|].
+      pose proof (proj1 (Forall_forall _ _) Hacks _ Hin) as (A1 & A2 & A3). cbn [fst snd] in *.
+      apply pg_bseg_ctl; try assumption; [left; reflexivity|intros _; exact A3].
+    - intros c sn ts Hcmd Hin. apply (pg_bseg_rv isn k k'); [exact Hrv|exact Hc|].
+      assert (Hu : is_u32 sn /\ is_u32 ts).
+      { destruct Hin as [E|Hin]; [inversion E; subst; unfold is_u32, W32; lia|].
+        pose proof (proj1 (Forall_forall _ _) Hacks _ Hin) as (A1 & A2 & A3). split; assumption. }
+      apply pg_bseg_ctl; try assumption; [right; exact Hcmd|exact (proj1 Hu)|exact (proj2 Hu)|].
+      intros E. unfold c_IKCP_CMD_ACK, c_IKCP_CMD_WASK, c_IKCP_CMD_WINS in *. lia. }
+  split.
+  { constructor; try assumption.
+    - apply (nr_rcvk_frame src g k k'); [apply pg_rv_nr; exact Hrv|exact Hrcv].
+    - rewrite Hc; exact Hconv.
+    - split; assumption.
+    - rewrite Ha. constructor.
+    - apply (pg_rv_moved k); assumption. }
+  split; [exact Hrv|]. split; [exact Hc|]. split; [exact Ha|]. split; [exact Hout|].
+  intros Hne. destruct (exists_last Hne) as (l & [sn ts] & El).
+  destruct (flush_acks_owed k ft now k' nx o Hinv Hft Hfl) as (_ & _ & Hlast).
+  destruct (Hlast sn ts l El) as (d & segs1 & s1 & Hd & Ed & Hin & _).
+  pose proof (proj1 (Forall_forall _ _) Hout d Hd) as (segs2 & Ed2 & Hok).
+  destruct segs2 as [|x t].
+  - exfalso. pose proof (lv_enc_in_pos s1 segs1 Hin) as Hp. rewrite <- Ed, Ed2 in Hp. cbn in Hp. lia.
+  - exists d, x, t. split; [exact Hd|]. split; [exact Ed2|exact Hok].
+Qed.
+
+(* ---- Recv ---- *)
+Lemma pg_b_recv isn src g k n k' r d :
+  no_wrap src -> pg_bi isn src g k -> recv k n = (k', r, d) ->
+  pg_bmono isn k k' /\ moved k' /\ acklist k' = acklist k /\ conv k' = conv k /\
+  snd_queue k' = snd_queue k /\ snd_buf k' = snd_buf k.
+Proof.
+  intros Hnw [Hinv Hrcv [Hisn Hisnu] Hconv Hidle Hacks Hmoved] H.
+  pose proof (ns_sf_recv k n) as Hsf. rewrite H in Hsf. cbn [fst] in Hsf.
+  destruct Hsf as (Sq & Sb & _ & _ & Sc & _ & Sa).
+  assert (Hmain : pg_bmono isn k k' /\ moved k').
+  { destruct (pg_ridx src g k isn Hrcv Hisn Hnw) as (r0 & Hrn & Hr & Hridx).
+    assert (Hsrc : Z.of_nat (length src) < H32 - 65536) by exact Hnw.
+    pose proof (inv_rcv_buf_bound k Hinv) as Hbb. pose proof (I_rcv_wnd _ Hinv) as Hrw.
+    unfold recv in H. cbv zeta in H.
+    destruct (peeksize k <? 0); [inversion H; subst; split; [apply pg_bmono_refl|exact Hmoved]|].
+    destruct (peeksize k >? n); [inversion H; subst; split; [apply pg_bmono_refl|exact Hmoved]|].
+    destruct (pop_msg (rcv_queue k)) as [d0 rq] eqn:Ep.
+    destruct (pop_msg_ok (fun _ => True) _ _ _ Ep) as [Hlen _].
+    set (k0 := set_rcv_queue k rq) in *.
+    destruct (pg_do_move_ready isn k0 r0) as (m & M1 & M2 & M3 & M0 & M4 & M5 & _);
+      [exact Hrn|lia|unfold k0; ksimpl; unfold H32 in *; lia|].
+    set (k1 := do_move_ready k0) in *.
+    pose proof (do_move_ready_fields k0) as F. fold k1 in F.
+    destruct F as (F1 & _ & _ & _ & _ & _ & _ & _ & _ & F10 & _).
+    unfold k0 in M1, M3, M0, M4. ksimpl_in M1. ksimpl_in M3. ksimpl_in M0. ksimpl_in M4.
+    assert (Hr1 : idx isn (rcv_nxt k1) = r0 + m).
+    { rewrite M2. apply pg_idx_u32. unfold H32, W32 in *. lia. }
+    assert (Hb1 : pg_bmono isn k k1 /\ moved k1).
+    { split; [|exact M5]. unfold pg_bmono. rewrite Hr1, Hridx. split; [lia|]. split.
+      - intros j (Hj & Hc). split; [exact Hj|]. rewrite Hr1. rewrite Hridx in Hc. apply M4; assumption.
+      - split; [intros E0; assert (Hm0 : m = 0) by lia; rewrite (proj1 (M0 Hm0)); exact Hlen|].
+        split; [exact F10|exact F1]. }
+    destruct ((qlen (rcv_queue k1) <? rcv_wnd k1) && (qlen (rcv_queue k) >=? rcv_wnd k));
+      inversion H; subst k' r d; [|exact Hb1].
+    destruct Hb1 as [Hb1 Hm1]. split.
+    - eapply pg_bmono_trans; [exact Hb1|]. apply pg_bmono_rv; reflexivity.
+    - apply (pg_rv_moved k1); [reflexivity|exact Hm1]. }
+  destruct Hmain as [H1 H2]. split; [exact H1|]. split; [exact H2|]. repeat split; assumption.
+Qed.
+
+(* ---- Input of a datagram of genuine segments ---- *)
+Lemma pg_b_input isn src g k segs reg nd now k' r o :
+  no_wrap src -> pg_bi isn src g k -> Forall (pg_segB isn src (conv k)) segs ->
+  input k (concat (map encode_seg segs)) reg nd now = Ok (k', r, o) ->
+  pg_bi isn src g k' /\ pg_bmono isn k k' /\ Forall (ns_dg (pg_bseg isn k')) o /\
+  (acklist k <> [] -> acklist k' <> [] \/ pg_out_some isn k' o) /\
+  (forall s0 i, In s0 segs -> s_cmd s0 = c_IKCP_CMD_PUSH -> s_sn s0 = u32 (isn + i) ->
+     0 <= i < H32 - 65536 -> pg_J isn k i ->
+     i < idx isn (rcv_nxt k') /\ (acklist k' <> [] \/ pg_out_some isn k' o)).
+Proof.
+  intros Hnw Hbi HQ Hin.
+  destruct segs as [|s1 t1].
+  { cbn [map concat] in Hin. unfold input in Hin. rewrite pg_input_pre_nil in Hin. inversion Hin; subst k' r o.
+    split; [exact Hbi|]. split; [apply pg_bmono_refl|]. split; [constructor|]. split; [intros H; left; exact H|].
+    intros s0 i []. }
+  set (segs := s1 :: t1) in *.
+  set (I := fun (pre : list seg) (a : inp) =>
+    pg_bi isn src g (i_k a) /\ pg_bmono isn k (i_k a) /\ (exists ext, acklist (i_k a) = acklist k ++ ext) /\
+    (forall s0 i, In s0 pre -> s_cmd s0 = c_IKCP_CMD_PUSH -> s_sn s0 = u32 (isn + i) ->
+       0 <= i < H32 - 65536 -> pg_J isn k i ->
+       i < idx isn (rcv_nxt (i_k a)) /\ acklist (i_k a) <> [])).
+  destruct (pg_input_pre I (pg_segB isn src (conv k)) reg k segs nd now) as (a' & HI & Epre).
+  { intros s (H & _). exact H. }
+  { intros pre a s rest (I1 & I2 & (ext & I3) & I4) (Q1 & Q2 & Q3 & Q4) Hrest.
+    assert (Hcv : conv (i_k a) = conv k) by (destruct I2 as (_ & _ & _ & _ & H); exact H).
+    destruct (pg_b_seg isn src g a s rest reg Hnw I1 Hrest Q1) as (a1 & E1 & B1 & B2 & (e2 & B3) & B4);
+      [congruence|exact Q3|exact Q4|].
+    exists a1. split; [exact E1|]. split; [exact B1|]. split; [eapply pg_bmono_trans; eassumption|].
+    split; [exists (ext ++ e2); rewrite B3, I3, app_assoc; reflexivity|].
+    intros s0 i Hs0 Hc Hsn Hi HJ. apply in_app_or in Hs0. destruct Hs0 as [Hs0|[Hs0|[]]].
+    - destruct (I4 s0 i Hs0 Hc Hsn Hi HJ) as [H1 H2]. destruct B2 as (T1 & _). split; [lia|].
+      rewrite B3. intros Hn. apply app_eq_nil in Hn. apply H2. exact (proj1 Hn).
+    - subst s0. apply (B4 Hc i Hsn Hi). exact (pg_J_mono isn k (i_k a) i I2 HJ). }
+  { exact HQ. }
+  { discriminate. }
+  { split; [exact Hbi|]. split; [apply pg_bmono_refl|]. split; [exists []; rewrite app_nil_r; reflexivity|].
+    intros s0 i []. }
+  destruct HI as (I1 & I2 & (ext & I3) & I4).
+  set (k3 := pg_post k a' reg now) in *.
+  destruct (pg_fx_all _ _ (pg_fx_post k a' reg now)) as
+    (X1 & X2 & X3 & X4 & X5 & X6 & X7 & X8 & X9 & X10 & X11 & X12 & X13 & X14 & X15 & X16 & X17 & X18).
+  fold k3 in X1, X2, X3, X4, X5, X6, X7, X8, X9, X10, X11, X12, X13, X14, X15, X16, X17, X18.
+  assert (Hrv3 : pg_rv k3 = pg_rv (i_k a')) by (unfold pg_rv; rewrite X5, X13, X15, X7; reflexivity).
+  assert (Hinv3 : inv k3).
+  { pose proof I1 as [Hinv0 _ _ _ _ _ _].
+    assert (Hbl : is_byte_list (concat (map encode_seg segs))).
+    { apply pg_concat_bytes. eapply Forall_impl; [|exact HQ]. intros s (H & _). exact H. }
+    destruct (input_pre_ok k _ reg nd now (BI_inv _ _ _ _ Hbi) Hbl) as (k2 & r2 & fr2 & E2 & Hi2 & _).
+    rewrite Epre in E2. inversion E2; subst. exact Hi2. }
+  assert (Hbi3 : pg_bi isn src g k3) by (apply (pg_bi_frame isn src g (i_k a')); assumption).
+  assert (Hm3 : pg_bmono isn k k3).
+  { eapply pg_bmono_trans; [exact I2|]. apply pg_bmono_rv; assumption. }
+  assert (Hhit3 : forall s0 i, In s0 segs -> s_cmd s0 = c_IKCP_CMD_PUSH -> s_sn s0 = u32 (isn + i) ->
+       0 <= i < H32 - 65536 -> pg_J isn k i -> i < idx isn (rcv_nxt k3) /\ acklist k3 <> []).
+  { intros s0 i Hs0 Hc Hsn Hi HJ. rewrite X5, X16. exact (I4 s0 i Hs0 Hc Hsn Hi HJ). }
+  assert (Hal3 : acklist k <> [] -> acklist k3 <> []).
+  { intros Hne. rewrite X16, I3. intros Hn. apply app_eq_nil in Hn. apply Hne. exact (proj1 Hn). }
+  unfold input in Hin. rewrite Epre in Hin.
+  assert (Hfl : forall ft k4 nx o4, ft = FLUSH_FULL \/ ft = FLUSH_ACKONLY -> flush k3 ft now = Ok (k4, nx, o4) ->
+    pg_bi isn src g k4 /\ pg_bmono isn k k4 /\ Forall (ns_dg (pg_bseg isn k4)) o4 /\
+    (acklist k <> [] -> acklist k4 <> [] \/ pg_out_some isn k4 o4) /\
+    (forall s0 i, In s0 segs -> s_cmd s0 = c_IKCP_CMD_PUSH -> s_sn s0 = u32 (isn + i) ->
+       0 <= i < H32 - 65536 -> pg_J isn k i ->
+       i < idx isn (rcv_nxt k4) /\ (acklist k4 <> [] \/ pg_out_some isn k4 o4))).
+  { intros ft k4 nx o4 Hft Ef.
+    destruct (pg_b_flush isn src g k3 ft now k4 nx o4 Hbi3 Hft Ef) as (F1 & F2 & F3 & F4 & F5 & F6).
+    split; [exact F1|]. split; [eapply pg_bmono_trans; [exact Hm3|apply pg_bmono_rv; assumption]|].
+    split; [exact F5|]. split; [intros Hne; right; apply F6; apply Hal3; exact Hne|].
+    intros s0 i Hs0 Hc Hsn Hi HJ. destruct (Hhit3 s0 i Hs0 Hc Hsn Hi HJ) as [H1 H2].
+    pose proof F2 as F2'. unfold pg_rv in F2'. inversion F2' as [[E1 E2 E3 E4]]. rewrite E1.
+    split; [exact H1|right; apply F6; exact H2]. }
+  destruct (pg_freq k3 a' nd).
+  - inversion Hin; subst k' r o. split; [exact Hbi3|]. split; [exact Hm3|]. split; [constructor|].
+    split; [intros Hne; left; apply Hal3; exact Hne|].
+    intros s0 i Hs0 Hc Hsn Hi HJ. destruct (Hhit3 s0 i Hs0 Hc Hsn Hi HJ) as [H1 H2]. split; [exact H1|left; exact H2].
+  - destruct (flush k3 FLUSH_ACKONLY now) as [[[k4 nx] o4]|w] eqn:Ef; [|discriminate].
+    inversion Hin; subst k' r o. exact (Hfl _ _ _ _ (or_intror eq_refl) Ef).
+  - destruct (flush k3 FLUSH_FULL now) as [[[k4 nx] o4]|w] eqn:Ef; [|discriminate].
+    inversion Hin; subst k' r o. exact (Hfl _ _ _ _ (or_introl eq_refl) Ef).
+Qed.
+
+Definition pg_b_post (isn : Z) (src : list (Z * bytes)) (g : receiver_ghost) (k k' : kcp) (o : list bytes) : Prop :=
+  pg_bi isn src g k' /\ pg_bmono isn k k' /\ Forall (ns_dg (pg_bseg isn k')) o /\
+  (acklist k <> [] -> acklist k' <> [] \/ pg_out_some isn k' o).
+
+Lemma pg_b_quiet isn src g k k' :
+  pg_bi isn src g k -> inv k' -> pg_rv k' = pg_rv k -> conv k' = conv k -> acklist k' = acklist k ->
+  snd_queue k' = snd_queue k -> snd_buf k' = snd_buf k -> pg_b_post isn src g k k' [].
+Proof.
+  intros Hbi Hinv' Hrv Hc Ha Hq Hb. split; [apply (pg_bi_frame isn src g k); assumption|].
+  split; [apply pg_bmono_rv; assumption|]. split; [constructor|]. intros Hne. left. rewrite Ha. exact Hne.
+Qed.
+
+Lemma pg_b_post_trans isn src g k k1 k' o :
+  pg_bmono isn k k1 -> (acklist k <> [] -> acklist k1 <> []) -> pg_b_post isn src g k1 k' o ->
+  pg_b_post isn src g k k' o.
+Proof.
+  intros Hm Ha (P1 & P2 & P3 & P4). split; [exact P1|]. split; [eapply pg_bmono_trans; eassumption|].
+  split; [exact P3|]. intros Hne. apply P4. apply Ha. exact Hne.
+Qed.
+
+Lemma pg_b_flush_post isn src g k ft now k' nx o :
+  pg_bi isn src g k -> ft = FLUSH_FULL \/ ft = FLUSH_ACKONLY -> flush k ft now = Ok (k', nx, o) ->
+  pg_b_post isn src g k k' o.
+Proof.
+  intros Hbi Hft Hfl. destruct (pg_b_flush isn src g k ft now k' nx o Hbi Hft Hfl) as (F1 & F2 & F3 & F4 & F5 & F6).
+  split; [exact F1|]. split; [apply pg_bmono_rv; assumption|]. split; [exact F5|].
+  intros Hne. right. apply F6. exact Hne.
+Qed.
+
+Lemma pg_b_step isn src g k o k' x :
+  no_wrap src -> src_wf src -> pg_bi isn src g k -> op_ok32 o ->
+  (match o with OSend _ => False | _ => True end) ->
+  (forall d rg nd t, o = OInput d rg nd t ->
+     exists segs, d = concat (map encode_seg segs) /\ Forall (pg_segB isn src (conv k)) segs) ->
+  step k o = Ok (k', x) ->
+  pg_b_post isn src (ghost_receiver g o x) k k' (o_dgrams x).
+Proof.
+  intros Hnw Hwf Hbi Hop Hns Hgen Hstep.
+  pose proof Hbi as [Hinv Hrcv [Hisn Hisnu] Hconv Hidle Hacks Hmoved].
+  pose proof (nr_step_inv k o Hinv (proj1 Hop) k' x Hstep) as Hinv'.
+  destruct o as [b|n|d reg nd now|full now|now|now|m|nd iv rs nc]; cbn [step ghost_receiver] in *.
+  - contradiction.
+  - (* Recv *)
+    destruct (recv k n) as [[k1 r] d] eqn:E. inversion Hstep; subst k' x. cbn [o_ret o_data o_dgrams].
+    destruct (pg_b_recv isn src g k n k1 r d Hnw Hbi E) as (R1 & R2 & R3 & R4 & R5 & R6).
+    pose proof (nr_recv src g k n k1 r d Hwf Hnw Hrcv E) as Hrcv'.
+    split.
+    { constructor; try assumption.
+      - destruct (r >=? 0); cbn [rg_isn]; split; assumption.
+      - rewrite R4; exact Hconv.
+      - rewrite R5, R6; exact Hidle.
+      - rewrite R3. eapply Forall_impl; [|exact Hacks]. intros p. apply pg_ackp_mono. exact (proj1 (proj2 R1)). }
+    split; [exact R1|]. split; [constructor|]. intros Hne; left; rewrite R3; exact Hne.
+  - (* Input *)
+    destruct (input k d reg nd now) as [[[k1 r] o]|w] eqn:E; [|discriminate]. inversion Hstep; subst k' x.
+    cbn [o_dgrams]. destruct (Hgen d reg nd now eq_refl) as (segs & Ed & Hsegs). subst d.
+    destruct (pg_b_input isn src g k segs reg nd now k1 r o Hnw Hbi Hsegs E) as (B1 & B2 & B3 & B4 & _).
+    split; [exact B1|]. split; [exact B2|]. split; [exact B3|exact B4].
+  - (* Flush *)
+    destruct (flush k (if full then FLUSH_FULL else FLUSH_ACKONLY) now) as [[[k1 nx] o]|w] eqn:E; [|discriminate].
+    inversion Hstep; subst k' x. cbn [o_dgrams].
+    apply (pg_b_flush_post isn src g k (if full then FLUSH_FULL else FLUSH_ACKONLY) now k1 nx o Hbi); [destruct full; auto|exact E].
+  - (* Update *)
+    unfold update in Hstep.
+    set (k1 := if updated k =? 0 then set_timer k (state k) now 1 else k) in *.
+    assert (H1 : pg_b_post isn src g k k1 []).
+    { unfold k1. destruct (updated k =? 0).
+      - apply pg_b_quiet; try reflexivity; [exact Hbi|apply inv_set_timer; exact Hinv].
+      - apply pg_b_quiet; try reflexivity; assumption. }
+    set (p := if (itimediff now (ts_flush k1) >=? 10000) || (itimediff now (ts_flush k1) <? -10000)
+              then (set_timer k1 (state k1) now (updated k1), 0) else (k1, itimediff now (ts_flush k1))) in *.
+    assert (H2 : pg_b_post isn src g k (fst p) []).
+    { destruct H1 as (P1 & P2 & _ & P4).
+      unfold p. destruct ((itimediff now (ts_flush k1) >=? 10000) || (itimediff now (ts_flush k1) <? -10000)); cbn [fst].
+      - apply (pg_b_post_trans isn src g k k1); [exact P2| |].
+        + intros Hne. destruct (P4 Hne) as [H|(d & x0 & t0 & [] & _)]. exact H.
+        + apply pg_b_quiet; try reflexivity; [exact P1|apply inv_set_timer; exact (BI_inv _ _ _ _ P1)].
+      - split; [exact P1|]. split; [exact P2|]. split; [constructor|exact P4]. }
+    destruct p as [k2 slap]. cbn [fst] in H2. destruct H2 as (P1 & P2 & _ & P4).
+    assert (P4' : acklist k <> [] -> acklist k2 <> []).
+    { intros Hne. destruct (P4 Hne) as [H|(d & x0 & t0 & [] & _)]. exact H. }
+    destruct (slap >=? 0).
+    + match type of Hstep with context [flush ?kk FLUSH_FULL now] => set (k3 := kk) in * end.
+      assert (H3 : pg_bi isn src g k3).
+      { apply (pg_bi_frame isn src g k2); try reflexivity; [exact P1|apply inv_set_timer; exact (BI_inv _ _ _ _ P1)]. }
+      destruct (flush k3 FLUSH_FULL now) as [[[k4 nx] o]|w] eqn:E; [|discriminate].
+      inversion Hstep; subst k' x. cbn [o_dgrams].
+      apply (pg_b_post_trans isn src g k k3).
+      * eapply pg_bmono_trans; [exact P2|]. apply pg_bmono_rv; reflexivity.
+      * exact P4'.
+      * apply (pg_b_flush_post isn src g k3 FLUSH_FULL now k4 nx o H3); [left; reflexivity|exact E].
+    + inversion Hstep; subst k' x. cbn [o_dgrams]. split; [exact P1|]. split; [exact P2|]. split; [constructor|exact P4].
+  - (* Check *)
+    inversion Hstep; subst k' x. cbn [o_dgrams]. apply pg_b_quiet; try reflexivity; assumption.
+  - (* SetMtu *)
+    destruct (set_mtu k m) as [k1 r] eqn:E. inversion Hstep; subst k' x. cbn [o_dgrams].
+    unfold set_mtu in E.
+    destruct ((m <=? c_IKCP_OVERHEAD) || (m >? c_mtuLimit));
+      [inversion E; subst; apply pg_b_quiet; try reflexivity; assumption|].
+    destruct (max_queued k >? m - c_IKCP_OVERHEAD);
+      [inversion E; subst; apply pg_b_quiet; try reflexivity; assumption|].
+    inversion E; subst k1 r. apply pg_b_quiet; try reflexivity; assumption.
+  - (* NoDelay *)
+    inversion Hstep; subst k' x. cbn [o_dgrams].
+    unfold set_nodelay in *. destruct (nd >=? 0); apply pg_b_quiet; try reflexivity; assumption.
+Qed.
+
+(* ================================================================== *)
+(* A: snd_buf against a set G of indices the peer has received         *)
+(* ================================================================== *)
+(* the segment at position j of snd_buf has index av + j; if it is marked acked, G holds of it *)
+Fixpoint pg_sbG (G : Z -> Prop) (av : Z) (l : list seg) : Prop :=
+  match l with
+  | [] => True
+  | x :: t => (s_acked x <> 0 -> G av) /\ pg_sbG G (av + 1) t
+  end.
+
+Definition pg_A (G : Z -> Prop) (isn av : Z) (l : list seg) : Prop :=
+  contiguous (u32 (isn + av)) l /\ (forall i, 0 <= i < av -> G i) /\ pg_sbG G av l.
+
+Lemma pg_A_drop G isn av x t : 0 <= av -> pg_A G isn av (x :: t) -> G av -> pg_A G isn (av + 1) t.
+Proof.
+  intros Hav ((Hsn & Hc) & Hlt & (_ & Hg)) HG. split; [|split; [|exact Hg]].
+  - rewrite u32_add_mod in Hc. replace (isn + (av + 1)) with (isn + av + 1) by lia. exact Hc.
+  - intros i Hi. destruct (Z.eq_dec i av) as [->|Hne]; [exact HG|apply Hlt; lia].
+Qed.
+
+Lemma pg_una_walk G isn una : forall l av,
+  0 <= av -> pg_A G isn av l ->
+  (forall j, av <= j < av + qlen l -> itimediff una (u32 (isn + j)) > 0 -> G j) ->
+  exists c, 0 <= c /\ qlen (fst (una_walk una l)) = qlen l - c /\
+    pg_A G isn (av + c) (fst (una_walk una l)) /\
+    match fst (una_walk una l) with [] => True | x :: _ => itimediff una (s_sn x) <= 0 end.
+Proof.
+  induction l as [|x t IH]; intros av Hav HA HG; cbn [una_walk].
+  - exists 0. rewrite Z.add_0_r. cbn [fst]. split; [lia|]. split; [lia|]. split; [exact HA|exact I].
+  - destruct (itimediff una (s_sn x) >? 0) eqn:E; lv_b2z.
+    + pose proof HA as ((Hsn & _) & _).
+      assert (HGav : G av).
+      { apply HG; [rewrite qlen_cons; pose proof (qlen_nonneg t); lia|]. rewrite <- Hsn. lia. }
+      destruct (IH (av + 1)) as (c & Hc & Hq & HA' & Hhd); [lia|exact (pg_A_drop _ _ _ _ _ Hav HA HGav)|
+        intros j Hj; apply HG; rewrite qlen_cons; lia|].
+      destruct (una_walk una t) as [r0 c0]. cbn [fst] in *.
+      exists (1 + c). rewrite qlen_cons. split; [lia|]. split; [lia|].
+      replace (av + (1 + c)) with (av + 1 + c) by lia. split; assumption.
+    + exists 0. rewrite Z.add_0_r. cbn [fst]. split; [lia|]. split; [lia|]. split; [exact HA|lia].
+Qed.
+
+Lemma pg_drop_acked G isn : forall l av,
+  0 <= av -> pg_A G isn av l ->
+  exists c, 0 <= c /\ qlen (drop_acked l) = qlen l - c /\ pg_A G isn (av + c) (drop_acked l) /\
+    match drop_acked l with [] => True | x :: _ => s_acked x = 0 end.
+Proof.
+  induction l as [|x t IH]; intros av Hav HA; cbn [drop_acked].
+  - exists 0. rewrite Z.add_0_r. split; [lia|]. split; [lia|]. split; [exact HA|exact I].
+  - destruct (s_acked x =? 0) eqn:E; lv_b2z.
+    + exists 0. rewrite Z.add_0_r. split; [lia|]. split; [lia|]. split; [exact HA|exact E].
+    + pose proof HA as (_ & _ & (Hg & _)).
+      destruct (IH (av + 1)) as (c & Hc & Hq & HA' & Hhd); [lia|exact (pg_A_drop _ _ _ _ _ Hav HA (Hg E))|].
+      exists (1 + c). rewrite qlen_cons. split; [lia|]. split; [lia|].
+      replace (av + (1 + c)) with (av + 1 + c) by lia. split; assumption.
+Qed.
+
+Lemma pg_sbG_ack_walk G sn : forall l av,
+  pg_sbG G av l -> (forall x j, nth_error l j = Some x -> s_sn x = sn -> G (av + Z.of_nat j)) ->
+  pg_sbG G av (ack_walk sn l).
+Proof.
+  induction l as [|x t IH]; intros av Hs HG; cbn [ack_walk]; [exact I|].
+  destruct Hs as [H1 H2].
+  destruct (sn =? s_sn x) eqn:E; lv_b2z.
+  - cbn [pg_sbG]. lv_segf. split; [|exact H2]. intros _.
+    specialize (HG x 0%nat eq_refl (eq_sym E)). rewrite Z.add_0_r in HG. exact HG.
+  - destruct (itimediff sn (s_sn x) <? 0); [split; assumption|].
+    cbn [pg_sbG]. split; [exact H1|]. apply IH; [exact H2|].
+    intros y j Hy Hsn. specialize (HG y (S j) Hy Hsn). rewrite Nat2Z.inj_succ in HG.
+    replace (av + 1 + Z.of_nat j) with (av + Z.succ (Z.of_nat j)) by lia. exact HG.
+Qed.
+
+Lemma pg_contig_ack_walk sn : forall l b, contiguous b l -> contiguous b (ack_walk sn l).
+Proof.
+  induction l as [|x t IH]; intros b Hc; cbn [ack_walk]; [exact I|].
+  destruct Hc as [H1 H2].
+  destruct (sn =? s_sn x); [split; [exact H1|exact H2]|].
+  destruct (itimediff sn (s_sn x) <? 0); [split; assumption|]. split; [exact H1|apply IH; exact H2].
+Qed.
+
+Lemma pg_qlen_ack_walk sn : forall l, qlen (ack_walk sn l) = qlen l.
+Proof.
+  induction l as [|x t IH]; cbn [ack_walk]; [reflexivity|].
+  destruct (sn =? s_sn x); [rewrite !qlen_cons; reflexivity|].
+  destruct (itimediff sn (s_sn x) <? 0); [reflexivity|]. rewrite !qlen_cons, IH. reflexivity.
+Qed.
+
+Lemma pg_contig_nth isn : forall l av x j,
+  contiguous (u32 (isn + av)) l -> nth_error l j = Some x -> s_sn x = u32 (isn + (av + Z.of_nat j)).
+Proof.
+  induction l as [|y t IH]; intros av x j Hc Hn; [destruct j; discriminate|].
+  destruct Hc as [H1 H2]. destruct j as [|j]; cbn [nth_error] in Hn.
+  - inversion Hn; subst. rewrite Z.add_0_r. exact H1.
+  - rewrite u32_add_mod in H2. replace (isn + av + 1) with (isn + (av + 1)) in H2 by lia.
+    rewrite (IH (av + 1) x j H2 Hn). f_equal. lia.
+Qed.
+
+(* fastack_walk changes neither numbers nor acked marks *)
+Lemma pg_fastack_walk_same sn ts fr : forall l,
+  Forall2 (fun s s' => s_sn s' = s_sn s /\ s_acked s' = s_acked s) l (fst (fastack_walk sn ts fr l)).
+Proof.
+  induction l as [|s t IH]; cbn [fastack_walk]; [constructor|].
+  assert (Hrefl : forall l0 : list seg, Forall2 (fun s s' => s_sn s' = s_sn s /\ s_acked s' = s_acked s) l0 l0).
+  { induction l0; constructor; auto. }
+  destruct (itimediff sn (s_sn s) <? 0); [apply Hrefl|].
+  destruct (fastack_walk sn ts fr t) as [t' f]. cbn [fst] in IH.
+  destruct (negb (sn =? s_sn s) && (itimediff (s_ts s) ts <=? 0)).
+  - destruct (s_fastack s =? 4294967295); cbn [fst]; constructor; auto.
+  - cbn [fst]. constructor; auto.
+Qed.
+
+Lemma pg_same_aux G : forall l l',
+  Forall2 (fun s s' => s_sn s' = s_sn s /\ s_acked s' = s_acked s) l l' ->
+  forall b av, contiguous b l -> pg_sbG G av l ->
+  contiguous b l' /\ pg_sbG G av l' /\ qlen l' = qlen l.
+Proof.
+  induction 1 as [|s s' t t' [E1 E2] HF IH]; intros b av Hc Hs; [auto|].
+  destruct Hc as [C1 C2]. destruct Hs as [S1 S2].
+  destruct (IH _ (av + 1) C2 S2) as (I1 & I2 & I3).
+  split; [split; [congruence|exact I1]|]. split; [split; [rewrite E2; exact S1|exact I2]|].
+  rewrite !qlen_cons, I3. reflexivity.
+Qed.
+
+Lemma pg_same_A G isn l l' av :
+  Forall2 (fun s s' => s_sn s' = s_sn s /\ s_acked s' = s_acked s) l l' ->
+  pg_A G isn av l -> pg_A G isn av l' /\ qlen l' = qlen l.
+Proof.
+  intros HF (Hc & Hlt & Hs).
+  destruct (pg_same_aux G l l' HF _ _ Hc Hs) as (H1 & H2 & H3).
+  split; [split; [exact H1|split; [exact Hlt|exact H2]]|exact H3].
+Qed.
+
+(* ================================================================== *)
+(* state level                                                         *)
+(* ================================================================== *)
+(* mid-Input: snd_una may lag behind the head of snd_buf *)
+Definition pg_am (G : Z -> Prop) (isn M : Z) (k : kcp) (av : Z) : Prop :=
+  0 <= av /\ av + qlen (snd_buf k) = M /\ snd_nxt k = u32 (isn + M) /\ pg_A G isn av (snd_buf k).
+
+Definition pg_af (G : Z -> Prop) (isn M : Z) (k : kcp) (av : Z) : Prop :=
+  pg_am G isn M k av /\ snd_una k = u32 (isn + av) /\ head_unacked k.
+
+Lemma pg_af_shrink_buf G isn M k av :
+  pg_am G isn M k av -> exists av', av <= av' /\ pg_af G isn M (shrink_buf k) av'.
+Proof.
+  intros (Hav & HM & Hn & HA). unfold shrink_buf. cbv zeta.
+  destruct (pg_drop_acked G isn (snd_buf k) av Hav HA) as (c & Hc & Hq & HA' & Hhd).
+  change (snd_buf (set_snd_buf k (drop_acked (snd_buf k)))) with (drop_acked (snd_buf k)).
+  exists (av + c). split; [lia|].
+  destruct (drop_acked (snd_buf k)) as [|x t] eqn:E.
+  - unfold pg_af, pg_am, head_unacked. ksimpl. rewrite qlen_nil in *.
+    split; [split; [lia|split; [lia|split; [exact Hn|exact HA']]]|]. split; [rewrite Hn; f_equal; lia|exact I].
+  - unfold pg_af, pg_am, head_unacked. ksimpl.
+    split; [split; [lia|split; [lia|split; [exact Hn|exact HA']]]|]. split; [exact (proj1 (proj1 HA'))|exact Hhd].
+Qed.
+
+Lemma pg_am_parse_una G isn M k av una :
+  pg_am G isn M k av ->
+  (forall j, av <= j < M -> itimediff una (u32 (isn + j)) > 0 -> G j) ->
+  exists av', av <= av' /\ pg_am G isn M (fst (parse_una k una)) av' /\
+    match snd_buf (fst (parse_una k una)) with [] => True | x :: _ => itimediff una (s_sn x) <= 0 end.
+Proof.
+  intros (Hav & HM & Hn & HA) HG. unfold parse_una.
+  destruct (pg_una_walk G isn una (snd_buf k) av Hav HA) as (c & Hc & Hq & HA' & Hhd).
+  { intros j Hj. apply HG. lia. }
+  destruct (una_walk una (snd_buf k)) as [l c0]. cbn [fst] in *.
+  exists (av + c). split; [lia|]. unfold pg_am. ksimpl. split; [|exact Hhd].
+  split; [lia|]. split; [lia|]. split; [exact Hn|exact HA'].
+Qed.
+
+Lemma pg_am_parse_ack G isn M k av sn :
+  pg_am G isn M k av -> (forall j, av <= j < M -> u32 (isn + j) = sn -> G j) ->
+  pg_am G isn M (parse_ack k sn) av.
+Proof.
+  intros (Hav & HM & Hn & (Hc & Hlt & Hs)) HG. unfold parse_ack.
+  destruct ((itimediff sn (snd_una k) <? 0) || (itimediff sn (snd_nxt k) >=? 0));
+    [split; [exact Hav|split; [exact HM|split; [exact Hn|split; [exact Hc|split; assumption]]]]|].
+  unfold pg_am. ksimpl. rewrite pg_qlen_ack_walk.
+  split; [exact Hav|]. split; [exact HM|]. split; [exact Hn|].
+  split; [apply pg_contig_ack_walk; exact Hc|]. split; [exact Hlt|].
+  apply pg_sbG_ack_walk; [exact Hs|].
+  intros x j Hx Hsn. apply HG.
+  - assert (Hj : (j < length (snd_buf k))%nat) by (apply nth_error_Some; rewrite Hx; discriminate).
+    unfold qlen in HM. lia.
+  - rewrite <- Hsn. symmetry. exact (pg_contig_nth isn _ _ _ _ Hc Hx).
+Qed.
+
+Lemma pg_am_parse_fastack G isn M k av sn ts :
+  pg_am G isn M k av -> pg_am G isn M (fst (parse_fastack k sn ts)) av.
+Proof.
+  intros (Hav & HM & Hn & HA). unfold parse_fastack.
+  destruct ((itimediff sn (snd_una k) <? 0) || (itimediff sn (snd_nxt k) >=? 0));
+    [split; [exact Hav|split; [exact HM|split; [exact Hn|exact HA]]]|].
+  pose proof (pg_fastack_walk_same sn ts (fastresend k) (snd_buf k)) as HF.
+  destruct (fastack_walk sn ts (fastresend k) (snd_buf k)) as [l f]. cbn [fst] in *.
+  destruct (pg_same_A G isn _ _ av HF HA) as [HA' Hq].
+  unfold pg_am. ksimpl. split; [exact Hav|]. split; [lia|]. split; [exact Hn|exact HA'].
+Qed.
+
+(* a state that differs from k outside the sending side *)
+Lemma pg_am_frame G isn M k k' av :
+  snd_buf k' = snd_buf k -> snd_nxt k' = snd_nxt k -> pg_am G isn M k av -> pg_am G isn M k' av.
+Proof. intros E1 E2 (H1 & H2 & H3 & H4). unfold pg_am. rewrite E1, E2. auto. Qed.
+
+Lemma pg_af_frame G isn M k k' av :
+  snd_buf k' = snd_buf k -> snd_nxt k' = snd_nxt k -> snd_una k' = snd_una k ->
+  pg_af G isn M k av -> pg_af G isn M k' av.
+Proof.
+  intros E1 E2 E3 (H1 & H2 & H3). split; [exact (pg_am_frame _ _ _ _ _ _ E1 E2 H1)|].
+  unfold head_unacked. rewrite E1, E3. split; assumption.
+Qed.
+
+(* ================================================================== *)
+(* one segment of an acknowledgement datagram at A                     *)
+(* ================================================================== *)
+Definition pg_segA (G : Z -> Prop) (isn cv M : Z) (x : seg) : Prop :=
+  seg_wf x /\ s_conv x = cv /\
+  (s_cmd x = c_IKCP_CMD_ACK \/ s_cmd x = c_IKCP_CMD_WASK \/ s_cmd x = c_IKCP_CMD_WINS) /\
+  (exists u, s_una x = u32 (isn + u) /\ 0 <= u <= M /\ forall j, 0 <= j < u -> G j) /\
+  (s_cmd x = c_IKCP_CMD_ACK -> forall j, 0 <= j < M -> u32 (isn + j) = s_sn x -> G j).
+
+Lemma pg_a_seg G isn M a x rest reg av :
+  M < H32 - 65536 -> pg_af G isn M (i_k a) av -> pg_segA G isn (conv (i_k a)) M x ->
+  exists a' av', input_seg a (encode_seg x ++ rest) reg = inl (Ok (a', rest)) /\
+    av <= av' /\ pg_af G isn M (i_k a') av' /\ conv (i_k a') = conv (i_k a) /\
+    (forall u, s_una x = u32 (isn + u) -> 0 <= u <= M -> u <= av').
+Proof.
+  intros HM (Ham & Huna & Hhd) (Hwf & Hcv & Hcmd & (u0 & Hu0 & Hu0r & Hu0G) & Hack).
+  assert (Hcok : cmd_ok (s_cmd x)) by (unfold cmd_ok; tauto).
+  rewrite (lv_input_seg_eq a x rest reg Hwf Hcv Hcok). rewrite lv_in_tail_pre. cbv zeta.
+  set (k := i_k a) in *.
+  (* the common prefix: rmt_wnd, parse_una, shrink_buf *)
+  set (k1 := if reg then set_rmt_wnd k (s_wnd x) else k).
+  assert (Ham1 : pg_am G isn M k1 av) by (unfold k1; destruct reg; [apply (pg_am_frame _ _ _ k); [reflexivity|reflexivity|exact Ham]|exact Ham]).
+  assert (Hc1 : conv k1 = conv k) by (unfold k1; destruct reg; reflexivity).
+  pose proof Ham as (Hav & HMeq & _).
+  destruct (pg_am_parse_una G isn M k1 av (s_una x) Ham1) as (av2 & Hle2 & Ham2 & Hhd2).
+  { intros j Hj Hd. apply Hu0G. rewrite Hu0, itimediff_index in Hd by (unfold H32 in *; lia). lia. }
+  destruct (pg_af_shrink_buf G isn M _ av2 Ham2) as (av3 & Hle3 & Haf3).
+  assert (Hprog : forall u, s_una x = u32 (isn + u) -> 0 <= u <= M -> u <= av3).
+  { intros u Hu Hur. pose proof Ham2 as (Hav2 & HM2 & _ & (Hc2 & _ & _)).
+    destruct (snd_buf (fst (parse_una k1 (s_una x)))) as [|y t] eqn:Eb.
+    - rewrite qlen_nil in HM2. lia.
+    - destruct Hc2 as [Hy _]. rewrite Hy, Hu, itimediff_index in Hhd2; [lia|].
+      rewrite qlen_cons in HM2. pose proof (qlen_nonneg t). unfold H32 in *. lia. }
+  assert (Hcp : conv (lv_pre a x reg) = conv k).
+  { pose proof (lv_fr_pre a x reg) as Hfr. unfold lv_fr in Hfr. fold k in Hfr. destruct reg; inversion Hfr; reflexivity. }
+  change (shrink_buf (fst (parse_una k1 (s_una x)))) with (lv_pre a x reg) in Haf3.
+  set (kp := lv_pre a x reg) in *.
+  destruct Hcmd as [E|[E|E]]; rewrite E.
+  - (* ACK *)
+    change (c_IKCP_CMD_ACK =? c_IKCP_CMD_ACK) with true. cbv iota.
+    pose proof (pg_am_parse_ack G isn M kp av3 (s_sn x) (proj1 Haf3)) as Ham4.
+    assert (Ham4' : pg_am G isn M (parse_ack kp (s_sn x)) av3).
+    { apply Ham4. intros j Hj Hsn. apply (Hack E); [pose proof (proj1 (proj1 Haf3)); lia|exact Hsn]. }
+    pose proof (pg_am_parse_fastack G isn M _ av3 (s_sn x) (s_ts x) Ham4') as Ham5.
+    pose proof (lv_fr_parse_fastack (parse_ack kp (s_sn x)) (s_sn x) (s_ts x)) as F2.
+    destruct (parse_fastack (parse_ack kp (s_sn x)) (s_sn x) (s_ts x)) as [k5 f]. cbn [fst] in *.
+    destruct (pg_af_shrink_buf G isn M k5 av3 Ham5) as (av6 & Hle6 & Haf6).
+    pose proof (lv_fr_shrink_buf k5) as F3. rewrite F2, lv_fr_parse_ack in F3.
+    assert (Hc6 : conv (shrink_buf k5) = conv kp) by (unfold lv_fr in F3; inversion F3; reflexivity).
+    eexists. exists av6. split; [reflexivity|]. cbn [i_k]. split; [lia|]. split; [exact Haf6|].
+    split; [congruence|]. intros u Hu Hur. specialize (Hprog u Hu Hur). lia.
+  - (* WASK *)
+    change (c_IKCP_CMD_WASK =? c_IKCP_CMD_ACK) with false.
+    change (c_IKCP_CMD_WASK =? c_IKCP_CMD_PUSH) with false.
+    change (c_IKCP_CMD_WASK =? c_IKCP_CMD_WASK) with true. cbv iota.
+    eexists. exists av3. split; [reflexivity|]. cbn [i_k]. split; [lia|].
+    split; [apply (pg_af_frame _ _ _ kp); [reflexivity|reflexivity|reflexivity|exact Haf3]|].
+    split; [exact Hcp|exact Hprog].
+  - (* WINS *)
+    change (c_IKCP_CMD_WINS =? c_IKCP_CMD_ACK) with false.
+    change (c_IKCP_CMD_WINS =? c_IKCP_CMD_PUSH) with false.
+    change (c_IKCP_CMD_WINS =? c_IKCP_CMD_WASK) with false. cbv iota.
+    eexists. exists av3. split; [reflexivity|]. cbn [i_k]. split; [lia|]. split; [exact Haf3|].
+    split; [exact Hcp|exact Hprog].
+Qed.
+
+(* ================================================================== *)
+(* A between calls                                                     *)
+(* ================================================================== *)
+Definition pg_ai (G : Z -> Prop) (isn : Z) (k : kcp) (av : Z) : Prop :=
+  0 <= av /\ snd_una k = u32 (isn + av) /\ (forall i, 0 <= i < av -> G i) /\
+  pg_sbG G av (snd_buf k) /\ head_unacked k.
+
+Lemma pg_ai_af G isn k av : inv k -> pg_ai G isn k av -> pg_af G isn (av + qlen (snd_buf k)) k av.
+Proof.
+  intros Hinv (Hav & Hu & Hlt & Hs & Hh). pose proof (I_sb_contig _ Hinv) as Hc. rewrite Hu in Hc.
+  split; [|split; assumption]. split; [exact Hav|]. split; [reflexivity|].
+  split; [rewrite (I_snd_nxt _ Hinv), Hu, u32_add_mod; f_equal; lia|]. split; [exact Hc|split; assumption].
+Qed.
+
+Lemma pg_af_ai G isn M k av : pg_af G isn M k av -> pg_ai G isn k av.
+Proof. intros ((Hav & _ & _ & (_ & Hlt & Hs)) & Hu & Hh). repeat split; assumption. Qed.
+
+Lemma pg_ai_frame G isn k k' av :
+  snd_buf k' = snd_buf k -> snd_una k' = snd_una k -> pg_ai G isn k av -> pg_ai G isn k' av.
+Proof. intros E1 E2 (H1 & H2 & H3 & H4 & H5). unfold pg_ai, head_unacked in *. rewrite E1, E2. auto. Qed.
+
+(* ---- flush ---- *)
+Lemma pg_sbG_app G : forall l av adm,
+  pg_sbG G av l -> Forall (fun s => s_acked s = 0) adm -> pg_sbG G av (l ++ adm).
+Proof.
+  induction l as [|x t IH]; intros av adm Hs Ha; cbn [app].
+  - clear Hs. revert av. induction Ha as [|y u Hy Hu IHu]; intros av; [exact I|]. split; [intros Hn; contradiction|apply IHu].
+  - destruct Hs as [H1 H2]. split; [exact H1|apply IH; assumption].
+Qed.
+
+Lemma pg_sbG_rel G (R : seg -> seg -> Prop) :
+  (forall s s', R s s' -> s_acked s' = s_acked s) ->
+  forall l l', Forall2 R l l' -> forall av, pg_sbG G av l -> pg_sbG G av l'.
+Proof.
+  intros HR l l' HF. induction HF as [|s s' t t' Hs HF IH]; intros av H; [exact I|].
+  destruct H as [H1 H2]. split; [rewrite (HR _ _ Hs); exact H1|apply IH; exact H2].
+Qed.
+
+Lemma pg_a_flush G isn k av ft now k' nx o :
+  inv k -> pg_ai G isn k av -> flush k ft now = Ok (k', nx, o) -> pg_ai G isn k' av.
+Proof.
+  intros Hinv (Hav & Hu & Hlt & Hs & Hh) Hfl.
+  destruct (fl_shape k ft now k' nx o Hfl)
+    as (al & tsp & pw & st & sst & cwn & inc & h1 & st3 & sq & sb & nxt & ns & k4 & sb' & a &
+        Hk' & _ & _ & _ & E4 & Esb & E5).
+  destruct (fl_ph4_spec k ft sq sb nxt ns Hinv E4) as (pre & adm & _ & Eadm & _ & _ & _ & Hfresh & _).
+  pose proof (fl_ph5_rel _ _ _ _ _ _ _ _ E5) as Hrel. rewrite Esb, Eadm in Hrel.
+  assert (Hun : Forall (fun s => s_acked s = 0) adm).
+  { eapply Forall_impl; [|exact Hfresh]. intros s ((_ & _ & H) & _). exact H. }
+  assert (HR : forall s s', fl_seg_rel (ft = FLUSH_FULL) s s' -> s_acked s' = s_acked s).
+  { intros s s' (_ & _ & _ & _ & H & _). exact H. }
+  subst k'. unfold pg_ai, head_unacked, fl_final. fl_fields.
+  split; [exact Hav|]. split; [exact Hu|]. split; [exact Hlt|]. split.
+  - apply (pg_sbG_rel G _ HR _ _ Hrel). apply pg_sbG_app; assumption.
+  - unfold head_unacked in Hh. inversion Hrel as [|s s' t t' Hss Htt E1 E2]; [exact I|].
+    rewrite (HR _ _ Hss). destruct (snd_buf k) as [|y u].
+    + cbn [app] in E1. rewrite <- E1 in Hun. exact (Forall_inv Hun).
+    + cbn [app] in E1. inversion E1; subst. exact Hh.
+Qed.
+
+(* ---- Input of an acknowledgement datagram ---- *)
+Lemma pg_a_input G isn k av segs reg nd now k' r o :
+  inv k -> pg_ai G isn k av -> av + qlen (snd_buf k) < H32 - 65536 ->
+  Forall (pg_segA G isn (conv k) (av + qlen (snd_buf k))) segs ->
+  input k (concat (map encode_seg segs)) reg nd now = Ok (k', r, o) ->
+  exists av', av <= av' <= av + qlen (snd_buf k) /\ pg_ai G isn k' av' /\
+    (forall x u, In x segs -> s_una x = u32 (isn + u) -> 0 <= u <= av + qlen (snd_buf k) -> u <= av').
+Proof.
+  intros Hinv Hai HM HQ Hin. pose proof (qlen_nonneg (snd_buf k)) as Hq0.
+  set (M := av + qlen (snd_buf k)) in *.
+  assert (HMdef : M = av + qlen (snd_buf k)) by reflexivity.
+  destruct segs as [|s1 t1].
+  { cbn [map concat] in Hin. unfold input in Hin. rewrite pg_input_pre_nil in Hin. inversion Hin; subst k' r o.
+    exists av. split; [lia|]. split; [exact Hai|]. intros x u []. }
+  set (segs := s1 :: t1) in *.
+  set (I := fun (pre : list seg) (a : inp) =>
+    exists av1, av <= av1 /\ pg_af G isn M (i_k a) av1 /\ conv (i_k a) = conv k /\
+      (forall x u, In x pre -> s_una x = u32 (isn + u) -> 0 <= u <= M -> u <= av1)).
+  destruct (pg_input_pre I (pg_segA G isn (conv k) M) reg k segs nd now) as (a' & HI & Epre).
+  { intros s (H & _). exact H. }
+  { intros pre a s rest (av1 & L1 & A1 & C1 & P1) Q1 _.
+    rewrite <- C1 in Q1.
+    destruct (pg_a_seg G isn M a s rest reg av1 HM A1 Q1) as (a1 & av2 & E1 & L2 & A2 & C2 & P2).
+    exists a1. split; [exact E1|]. exists av2. split; [lia|]. split; [exact A2|]. split; [congruence|].
+    intros x u Hx Hu Hur. apply in_app_or in Hx. destruct Hx as [Hx|[Hx|[]]].
+    - specialize (P1 x u Hx Hu Hur). lia.
+    - subst x. exact (P2 u Hu Hur). }
+  { exact HQ. }
+  { discriminate. }
+  { exists av. split; [lia|]. split; [exact (pg_ai_af G isn k av Hinv Hai)|]. split; [reflexivity|]. intros x u []. }
+  destruct HI as (av1 & L1' & A1 & C1 & P1).
+  assert (L1 : av <= av1 <= M).
+  { destruct A1 as ((_ & HMq & _) & _). pose proof (qlen_nonneg (snd_buf (i_k a'))). lia. }
+  set (k3 := pg_post k a' reg now) in *.
+  destruct (pg_fx_all _ _ (pg_fx_post k a' reg now)) as
+    (X1 & X2 & X3 & X4 & X5 & X6 & X7 & X8 & X9 & X10 & X11 & X12 & X13 & X14 & X15 & X16 & X17 & X18).
+  fold k3 in X1, X2, X3, X4, X5, X6, X7, X8, X9, X10, X11, X12, X13, X14, X15, X16, X17, X18.
+  assert (Hinv3 : inv k3).
+  { assert (Hbl : is_byte_list (concat (map encode_seg segs))).
+    { apply pg_concat_bytes. eapply Forall_impl; [|exact HQ]. intros s (H & _). exact H. }
+    destruct (input_pre_ok k _ reg nd now Hinv Hbl) as (k2 & r2 & fr2 & E2 & Hi2 & _).
+    rewrite Epre in E2. inversion E2; subst. exact Hi2. }
+  assert (Hai3 : pg_ai G isn k3 av1).
+  { apply pg_af_ai with M. apply (pg_af_frame _ _ _ (i_k a')); assumption. }
+  unfold input in Hin. rewrite Epre in Hin.
+  destruct (pg_freq k3 a' nd).
+  - inversion Hin; subst k' r o. exists av1. split; [exact L1|]. split; [exact Hai3|exact P1].
+  - destruct (flush k3 FLUSH_ACKONLY now) as [[[k4 nx] o4]|w] eqn:Ef; [|discriminate].
+    inversion Hin; subst k' r o. exists av1. split; [exact L1|].
+    split; [exact (pg_a_flush G isn k3 av1 _ now k4 nx o4 Hinv3 Hai3 Ef)|exact P1].
+  - destruct (flush k3 FLUSH_FULL now) as [[[k4 nx] o4]|w] eqn:Ef; [|discriminate].
+    inversion Hin; subst k' r o. exists av1. split; [exact L1|].
+    split; [exact (pg_a_flush G isn k3 av1 _ now k4 nx o4 Hinv3 Hai3 Ef)|exact P1].
+Qed.
+
+(* ---- every call ---- *)
+Lemma pg_a_step G g k o k' x av :
+  sender_inv g k -> pg_ai G (sg_isn g) k av -> av + qlen (snd_buf k) < H32 - 65536 -> op_ok32 o ->
+  (forall d rg nd t, o = OInput d rg nd t ->
+     exists segs, d = concat (map encode_seg segs) /\
+                  Forall (pg_segA G (sg_isn g) (conv k) (av + qlen (snd_buf k))) segs) ->
+  step k o = Ok (k', x) ->
+  exists av', av <= av' <= av + qlen (snd_buf k) /\ pg_ai G (sg_isn g) k' av' /\
+    (forall d rg nd t segs, o = OInput d rg nd t -> d = concat (map encode_seg segs) ->
+       Forall (pg_segA G (sg_isn g) (conv k) (av + qlen (snd_buf k))) segs ->
+       forall y u, In y segs -> s_una y = u32 (sg_isn g + u) -> 0 <= u <= av + qlen (snd_buf k) -> u <= av').
+Proof.
+  intros Hsi Hai HM Hop Hgen Hstep. pose proof (SI_inv _ _ Hsi) as Hinv.
+  pose proof (qlen_nonneg (snd_buf k)) as Hq0.
+  assert (Hquiet : forall k1, snd_buf k1 = snd_buf k -> snd_una k1 = snd_una k ->
+            (forall d rg nd t, o <> OInput d rg nd t) -> k' = k1 ->
+            exists av', av <= av' <= av + qlen (snd_buf k) /\ pg_ai G (sg_isn g) k' av' /\
+              (forall d rg nd t segs, o = OInput d rg nd t -> d = concat (map encode_seg segs) ->
+                 Forall (pg_segA G (sg_isn g) (conv k) (av + qlen (snd_buf k))) segs ->
+                 forall y u, In y segs -> s_una y = u32 (sg_isn g + u) -> 0 <= u <= av + qlen (snd_buf k) -> u <= av')).
+  { intros k1 E1 E2 Hno ->. exists av. split; [lia|]. split; [apply (pg_ai_frame G _ k); assumption|].
+    intros d rg nd t segs E. exfalso. exact (Hno d rg nd t E). }
+  destruct o as [b|n|d reg nd now|full now|now|now|m|nd iv rs nc]; cbn [step] in Hstep.
+  - destruct (send k b) as [[k1 r]|w] eqn:Hs; [|discriminate]. inversion Hstep; subst k' x.
+    destruct (ns_send_ok k b k1 r _ _ Hinv (proj1 Hop) (ns_src_ok_of g k Hsi) Hs) as (q' & Ek & _).
+    apply (Hquiet k1); [subst k1; reflexivity|subst k1; reflexivity|intros; discriminate|reflexivity].
+  - pose proof (ns_sf_recv k n) as Hsf. destruct (recv k n) as [[k1 r] d]. cbn [fst] in Hsf.
+    inversion Hstep; subst k' x. destruct Hsf as (_ & Sb & Su & _).
+    apply (Hquiet k1); [exact Sb|exact Su|intros; discriminate|reflexivity].
+  - destruct (input k d reg nd now) as [[[k1 r] o]|w] eqn:E; [|discriminate]. inversion Hstep; subst k' x.
+    destruct (Hgen d reg nd now eq_refl) as (segs & Ed & Hsegs). subst d.
+    destruct (pg_a_input G (sg_isn g) k av segs reg nd now k1 r o Hinv Hai HM Hsegs E) as (av' & L & A & P).
+    exists av'. split; [exact L|]. split; [exact A|]. intros d0 rg0 nd0 t0 segs2 E0 Ed2 Hsegs2. injection E0 as E01 E02 E03 E04.
+    rewrite E01, Ed2 in E.
+    destruct (pg_a_input G (sg_isn g) k av segs2 reg nd now k1 r o Hinv Hai HM Hsegs2 E) as (av2 & L2 & A2 & P2).
+    assert (Eav : av2 = av').
+    { destruct A as (_ & U1 & _). destruct A2 as (_ & U2 & _). pose proof (proj1 Hai) as Hav0.
+      apply (u32_inj_index (sg_isn g)); [unfold H32 in *; lia|congruence]. }
+    subst av2. exact P2.
+  - destruct (flush k (if full then FLUSH_FULL else FLUSH_ACKONLY) now) as [[[k1 nx] o]|w] eqn:E; [|discriminate].
+    inversion Hstep; subst k' x. exists av. split; [lia|].
+    split; [exact (pg_a_flush G _ k av _ now k1 nx o Hinv Hai E)|]. intros; discriminate.
+  - unfold update in Hstep.
+    set (k1 := if updated k =? 0 then set_timer k (state k) now 1 else k) in *.
+    assert (H1 : inv k1 /\ pg_ai G (sg_isn g) k1 av).
+    { unfold k1. destruct (updated k =? 0); [|split; assumption].
+      split; [apply inv_set_timer; exact Hinv|apply (pg_ai_frame G _ k); [reflexivity|reflexivity|exact Hai]]. }
+    set (p := if (itimediff now (ts_flush k1) >=? 10000) || (itimediff now (ts_flush k1) <? -10000)
+              then (set_timer k1 (state k1) now (updated k1), 0) else (k1, itimediff now (ts_flush k1))) in *.
+    assert (H2 : inv (fst p) /\ pg_ai G (sg_isn g) (fst p) av).
+    { destruct H1 as [I1 A1]. unfold p.
+      destruct ((itimediff now (ts_flush k1) >=? 10000) || (itimediff now (ts_flush k1) <? -10000)); cbn [fst];
+        [|split; assumption].
+      split; [apply inv_set_timer; exact I1|apply (pg_ai_frame G _ k1); [reflexivity|reflexivity|exact A1]]. }
+    destruct p as [k2 slap]. cbn [fst] in H2. destruct H2 as [I2 A2].
+    destruct (slap >=? 0).
+    + match type of Hstep with context [flush ?kk FLUSH_FULL now] => set (k3 := kk) in * end.
+      assert (H3 : inv k3 /\ pg_ai G (sg_isn g) k3 av).
+      { split; [apply inv_set_timer; exact I2|apply (pg_ai_frame G _ k2); [reflexivity|reflexivity|exact A2]]. }
+      destruct (flush k3 FLUSH_FULL now) as [[[k4 nx] o]|w] eqn:E; [|discriminate].
+      inversion Hstep; subst k' x. exists av. split; [lia|].
+      split; [exact (pg_a_flush G _ k3 av _ now k4 nx o (proj1 H3) (proj2 H3) E)|]. intros; discriminate.
+    + inversion Hstep; subst k' x. exists av. split; [lia|]. split; [exact A2|]. intros; discriminate.
+  - inversion Hstep; subst k' x. apply (Hquiet k); [reflexivity|reflexivity|intros; discriminate|reflexivity].
+  - pose proof (ns_sf_set_mtu k m) as Hsf. destruct (set_mtu k m) as [k1 r]. cbn [fst] in Hsf.
+    inversion Hstep; subst k' x. destruct Hsf as (_ & Sb & Su & _).
+    apply (Hquiet k1); [exact Sb|exact Su|intros; discriminate|reflexivity].
+  - inversion Hstep; subst k' x. destruct (ns_sf_set_nodelay k nd iv rs nc) as (_ & Sb & Su & _).
+    apply (Hquiet (set_nodelay k nd iv rs nc)); [exact Sb|exact Su|intros; discriminate|reflexivity].
+Qed.
